@@ -3,9 +3,9 @@ package rules
 import (
 	"fmt"
 	"go/ast"
-	"go/constant"
 	"go/token"
 	"go/types"
+	"os"
 
 	"golang.org/x/tools/go/cfg"
 	"golang.org/x/tools/go/packages"
@@ -13,30 +13,31 @@ import (
 	"osmcheck/core"
 )
 
-// Anchors of the C14 rules. Exported API: annotate.ChildFirstOrdering,
-// annotate.NewChildFirstOrdering, (*ChildFirstOrdering).Next/.Close, the
-// RelationHistory/NotFound methods of the datasource interface, osm.RelationID,
-// osm.Member{Type,Ref}, osm.Relation.Members, osm.TypeRelation. Everything else is
-// resolved by role: the struct fields by their types (context.Context,
-// context.CancelFunc, sync.WaitGroup, chan RelationID, map[RelationID]…, the
-// interface with RelationHistory), the DFS function as "the method that sends on
-// the output channel", its parameters by their types. No unexported identifier is
-// used as an anchor.
+// Anchors of the C14 rules. Exported API only: annotate.ChildFirstOrdering, annotate.NewChildFirstOrdering,
+// (*ChildFirstOrdering).Next/.Close, the RelationHistory/NotFound methods of the datasource interface,
+// osm.RelationID, osm.Member{Type,Ref}, osm.Relation.Members, osm.TypeRelation, context.WithCancel,
+// context.Context.Done/Err, sync.WaitGroup.Add/Done/Wait. Everything else is resolved by role:
+//   - the struct fields by their types (context.Context, context.CancelFunc, sync.WaitGroup, chan RelationID,
+//     map[RelationID]…, the interface with RelationHistory);
+//   - the DFS ("walk") as the recursive function of package annotate from which the send on the output channel is
+//     reached and that is entered from outside the recursion; its parameters by their types;
+//   - the producer as whatever the single go statement of the constructor starts (closure or method);
+//   - helpers are never named: every function is explored together with everything it statically calls inside
+//     the module (c14_engine.go), values are compared as canonical terms (c14_val.go).
+// No unexported identifier and no file name is used as an anchor.
 
 // ---------------------------------------------------------------------------
 // model
 
 type c14Site struct {
 	fi   *FuncInfo
-	lit  *ast.FuncLit // innermost enclosing function literal, or nil
 	node ast.Node
 }
 
-type c14Cond struct {
-	blk  *cfg.Block
-	ifs  *ast.IfStmt
-	expr ast.Expr   // condition with leading negations removed
-	t, f *cfg.Block // successor taken when expr is true / false
+// c14Call is a call expression evaluated by a node of an explored graph.
+type c14Call struct {
+	n    *c14Node
+	call *ast.CallExpr
 }
 
 type c14Model struct {
@@ -48,93 +49,44 @@ type c14Model struct {
 	fCtx, fCancel, fOut, fWG, fVisited, fDS *types.Var
 
 	ctor, next, closeFn, walk *FuncInfo
+	idParam, pathParam        *types.Var
+	ordParam                  types.Object
 
-	sends, recvs, closes, visitedMut []c14Site
-	nFuncs                           int
+	sends, recvs, closes, visitedMut, visitedStores []c14Site
+	nFuncs                                          int
 
-	// walk
-	recv      types.Object
-	idParam   *types.Var
-	pathParam *types.Var
-	g         *cfg.CFG
-	dom       map[*cfg.Block]map[*cfg.Block]bool
-	par       map[ast.Node]ast.Node
-	conds     []c14Cond
-	send      *ast.SendStmt
-	sendBlk   *cfg.Block
-	sendIdx   int
-	rec       []*ast.CallExpr
+	eng                *c14Eng
+	wg, cg, pg, ng, xg *c14Graph // DFS, constructor, producer, Next, Close
+	ord                map[*c14Graph]*c14Val
+	goNode             *c14Node
 
-	// constructor
-	ordVar  types.Object // variable holding the new ordering
-	goStmts []*ast.GoStmt
-	lit     *ast.FuncLit // body of the producer goroutine
-	ctorG   *cfg.CFG
-	ctorDom map[*cfg.Block]map[*cfg.Block]bool
-	ctorPar map[ast.Node]ast.Node
+	anchors []string
+	wf      *c14WalkFacts
 }
 
 const c14RelID = core.ModulePath + ".RelationID"
 
-func c14RecvObj(info *types.Info, fi *FuncInfo) types.Object {
-	if fi == nil || fi.Decl.Recv == nil || len(fi.Decl.Recv.List) == 0 || len(fi.Decl.Recv.List[0].Names) == 0 {
+var c14Cache = map[*core.Program]*c14Model{}
+
+// c14Get returns the model of the loaded program; nil (after r.Anchor) when a keyed construct is gone.
+func c14Get(r *core.R) *c14Model {
+	m, ok := c14Cache[r.P]
+	if !ok {
+		m = c14Load(r.P)
+		c14Cache[r.P] = m
+	}
+	if len(m.anchors) > 0 {
+		for _, a := range m.anchors {
+			r.Anchor(a)
+		}
 		return nil
 	}
-	return info.Defs[fi.Decl.Recv.List[0].Names[0]]
-}
-
-// c14OnBase reports whether e is `base.f`.
-func c14OnBase(info *types.Info, e ast.Expr, f *types.Var, base types.Object) bool {
-	if f == nil || base == nil || fieldOf(info, e) != f {
-		return false
-	}
-	sel := ast.Unparen(e).(*ast.SelectorExpr)
-	return objOf(info, sel.X) == base
+	return m
 }
 
 func c14IsNil(info *types.Info, e ast.Expr) bool {
 	tv, ok := info.Types[e]
 	return ok && tv.IsNil()
-}
-
-func c14IsFalse(info *types.Info, e ast.Expr) bool {
-	tv, ok := info.Types[e]
-	return ok && tv.Value != nil && tv.Value.Kind() == constant.Bool && !constant.BoolVal(tv.Value)
-}
-
-// c14Same compares two side-effect-free expressions through the objects they mention
-// (identifiers, field selections, index expressions, type conversions).
-func c14Same(info *types.Info, a, b ast.Expr) bool {
-	a, b = ast.Unparen(a), ast.Unparen(b)
-	switch x := a.(type) {
-	case *ast.Ident:
-		y, ok := b.(*ast.Ident)
-		return ok && objOf(info, x) != nil && objOf(info, x) == objOf(info, y)
-	case *ast.SelectorExpr:
-		y, ok := b.(*ast.SelectorExpr)
-		if !ok {
-			return false
-		}
-		sx, sy := info.Selections[x], info.Selections[y]
-		if sx == nil || sy == nil || sx.Obj() != sy.Obj() {
-			return false
-		}
-		return c14Same(info, x.X, y.X)
-	case *ast.IndexExpr:
-		y, ok := b.(*ast.IndexExpr)
-		return ok && c14Same(info, x.X, y.X) && c14Same(info, x.Index, y.Index)
-	case *ast.CallExpr:
-		y, ok := b.(*ast.CallExpr)
-		if !ok || len(x.Args) != 1 || len(y.Args) != 1 {
-			return false
-		}
-		tx, ty := info.Types[x.Fun], info.Types[y.Fun]
-		if !tx.IsType() || !ty.IsType() || !types.Identical(tx.Type, ty.Type) {
-			return false
-		}
-		return c14Same(info, x.Args[0], y.Args[0])
-	}
-	return false
 }
 
 // c14Writes lists the statements of body that may change variable obj: assignments
@@ -174,47 +126,6 @@ func c14Writes(info *types.Info, body ast.Node, obj types.Object) []ast.Node {
 	return out
 }
 
-// c14Conds lists the if-conditions of a function as CFG branch points.
-func c14Conds(g *cfg.CFG, body ast.Node) []c14Cond {
-	ifOf := map[ast.Expr]*ast.IfStmt{}
-	ast.Inspect(body, func(n ast.Node) bool {
-		if s, ok := n.(*ast.IfStmt); ok {
-			ifOf[s.Cond] = s
-		}
-		return true
-	})
-	var out []c14Cond
-	for _, b := range g.Blocks {
-		if !b.Live || len(b.Succs) != 2 || len(b.Nodes) == 0 {
-			continue
-		}
-		e, ok := b.Nodes[len(b.Nodes)-1].(ast.Expr)
-		if !ok || ifOf[e] == nil {
-			continue
-		}
-		c := c14Cond{blk: b, ifs: ifOf[e], t: b.Succs[0], f: b.Succs[1]}
-		for {
-			e = ast.Unparen(e)
-			if u, ok := e.(*ast.UnaryExpr); ok && u.Op == token.NOT {
-				e = u.X
-				c.t, c.f = c.f, c.t
-				continue
-			}
-			break
-		}
-		c.expr = e
-		out = append(out, c)
-	}
-	return out
-}
-
-// c14Guarded reports whether blk is reached only through edge `via` of a condition
-// (via and other are the two successors of cblk).
-func c14Guarded(cblk, via, other, blk *cfg.Block) bool {
-	stop := func(b *cfg.Block) bool { return b == cblk }
-	return reachableFrom([]*cfg.Block{via}, stop)[blk] && !reachableFrom([]*cfg.Block{other}, stop)[blk]
-}
-
 func c14KindBlock(g *cfg.CFG, stmt ast.Node, kinds ...cfg.BlockKind) *cfg.Block {
 	for _, b := range g.Blocks {
 		if b.Stmt != stmt {
@@ -229,38 +140,31 @@ func c14KindBlock(g *cfg.CFG, stmt ast.Node, kinds ...cfg.BlockKind) *cfg.Block 
 	return nil
 }
 
-func c14Preds(g *cfg.CFG, blk *cfg.Block) []*cfg.Block {
-	var out []*cfg.Block
-	for _, b := range g.Blocks {
-		if !b.Live {
-			continue
-		}
-		for _, s := range b.Succs {
-			if s == blk {
-				out = append(out, b)
-				break
-			}
-		}
+func c14IsRelIDChan(t types.Type) bool {
+	if t == nil {
+		return false
 	}
-	return out
+	ch, ok := t.Underlying().(*types.Chan)
+	return ok && namedPath(ch.Elem()) == c14RelID
 }
 
-// c14Load resolves the model; nil (after r.Anchor) when a keyed construct is gone.
-func c14Load(r *core.R) *c14Model {
-	pk := r.P.Pkg("annotate")
-	if pk == nil {
-		r.Anchor("package annotate")
-		return nil
+func c14Load(p *core.Program) *c14Model {
+	m := &c14Model{p: p, ord: map[*c14Graph]*c14Val{}}
+	fail := func(format string, args ...interface{}) *c14Model {
+		m.anchors = append(m.anchors, fmt.Sprintf(format, args...))
+		return m
 	}
-	m := &c14Model{p: r.P, pk: pk, info: pk.TypesInfo}
+	pk := p.Pkg("annotate")
+	if pk == nil {
+		return fail("package annotate")
+	}
+	m.pk, m.info = pk, pk.TypesInfo
 	info := m.info
 	named, st := structType(pk, "ChildFirstOrdering")
 	if st == nil {
-		r.Anchor("annotate.ChildFirstOrdering (struct)")
-		return nil
+		return fail("annotate.ChildFirstOrdering (struct)")
 	}
 	m.named = named
-	okAll := true
 	uniq := func(role string, pred func(types.Type) bool) *types.Var {
 		var got *types.Var
 		n := 0
@@ -271,8 +175,7 @@ func c14Load(r *core.R) *c14Model {
 			}
 		}
 		if n != 1 {
-			r.Anchor(fmt.Sprintf("ChildFirstOrdering field in the role %q (found %d, want exactly 1)", role, n))
-			okAll = false
+			fail("ChildFirstOrdering field in the role %q (found %d, want exactly 1)", role, n)
 			return nil
 		}
 		return got
@@ -280,10 +183,7 @@ func c14Load(r *core.R) *c14Model {
 	m.fCtx = uniq("cancellable context (context.Context)", func(t types.Type) bool { return namedPath(t) == "context.Context" })
 	m.fCancel = uniq("cancel function (context.CancelFunc)", func(t types.Type) bool { return namedPath(t) == "context.CancelFunc" })
 	m.fWG = uniq("goroutine wait group (sync.WaitGroup)", func(t types.Type) bool { return namedPath(t) == "sync.WaitGroup" })
-	m.fOut = uniq("output channel (chan osm.RelationID)", func(t types.Type) bool {
-		ch, ok := t.Underlying().(*types.Chan)
-		return ok && namedPath(ch.Elem()) == c14RelID
-	})
+	m.fOut = uniq("output channel (chan osm.RelationID)", c14IsRelIDChan)
 	m.fVisited = uniq("visited set (map keyed by osm.RelationID)", func(t types.Type) bool {
 		mp, ok := t.Underlying().(*types.Map)
 		return ok && namedPath(mp.Key()) == c14RelID
@@ -300,59 +200,78 @@ func c14Load(r *core.R) *c14Model {
 		}
 		return false
 	})
-	if !okAll {
-		return nil
+	if len(m.anchors) > 0 {
+		return m
 	}
 	m.ctor = findFunc(pk, "NewChildFirstOrdering")
 	m.next = findFunc(pk, "(*ChildFirstOrdering).Next")
 	m.closeFn = findFunc(pk, "(*ChildFirstOrdering).Close")
-	for name, fi := range map[string]*FuncInfo{"annotate.NewChildFirstOrdering": m.ctor, "(*ChildFirstOrdering).Next": m.next, "(*ChildFirstOrdering).Close": m.closeFn} {
-		if fi == nil || fi.Decl.Body == nil {
-			r.Anchor(name)
-			okAll = false
+	for _, a := range []struct {
+		name string
+		fi   *FuncInfo
+	}{{"annotate.NewChildFirstOrdering", m.ctor}, {"(*ChildFirstOrdering).Next", m.next}, {"(*ChildFirstOrdering).Close", m.closeFn}} {
+		if a.fi == nil || a.fi.Decl.Body == nil {
+			fail("%s", a.name)
 		}
 	}
-	if !okAll {
-		return nil
+	if len(m.anchors) > 0 {
+		return m
 	}
 
-	// channel operations on the output channel and mutations of the visited set, package wide
-	for _, fi := range allFuncs(pk) {
-		m.nFuncs++
-		par := parentsOf(r.P, fi)
-		litOf := func(n ast.Node) *ast.FuncLit {
-			l, _ := enclosing(par, n, func(x ast.Node) bool { _, ok := x.(*ast.FuncLit); return ok }).(*ast.FuncLit)
-			return l
+	// channel operations on the output channel and mutations of the visited set, package wide (by field and by type,
+	// so that an operation through a local alias is seen as well)
+	isOut := func(e ast.Expr) bool { return fieldOf(info, e) == m.fOut || c14IsRelIDChan(info.TypeOf(e)) }
+	isVisited := func(e ast.Expr) bool {
+		if fieldOf(info, e) == m.fVisited {
+			return true
 		}
+		t := info.TypeOf(e)
+		return t != nil && types.Identical(t, m.fVisited.Type())
+	}
+	calls := map[*types.Func]map[*types.Func]bool{}
+	sendFns := map[*types.Func]bool{}
+	byObj := map[*types.Func]*FuncInfo{}
+	for _, fi := range allFuncs(pk) {
+		fi := fi
+		m.nFuncs++
+		byObj[fi.Obj] = fi
+		calls[fi.Obj] = map[*types.Func]bool{}
 		ast.Inspect(fi.Decl.Body, func(n ast.Node) bool {
 			switch x := n.(type) {
 			case *ast.SendStmt:
-				if fieldOf(info, x.Chan) == m.fOut {
-					m.sends = append(m.sends, c14Site{fi, litOf(x), x})
+				if isOut(x.Chan) {
+					m.sends = append(m.sends, c14Site{fi, x})
+					sendFns[fi.Obj] = true
 				}
 			case *ast.UnaryExpr:
-				if x.Op == token.ARROW && fieldOf(info, x.X) == m.fOut {
-					m.recvs = append(m.recvs, c14Site{fi, litOf(x), x})
+				if x.Op == token.ARROW && isOut(x.X) {
+					m.recvs = append(m.recvs, c14Site{fi, x})
 				}
 			case *ast.RangeStmt:
-				if fieldOf(info, x.X) == m.fOut {
-					m.recvs = append(m.recvs, c14Site{fi, litOf(x), x})
+				if isOut(x.X) {
+					m.recvs = append(m.recvs, c14Site{fi, x})
 				}
 			case *ast.CallExpr:
 				switch builtinName(info, x) {
 				case "close":
-					if len(x.Args) == 1 && fieldOf(info, x.Args[0]) == m.fOut {
-						m.closes = append(m.closes, c14Site{fi, litOf(x), x})
+					if len(x.Args) == 1 && isOut(x.Args[0]) {
+						m.closes = append(m.closes, c14Site{fi, x})
 					}
 				case "delete", "clear":
-					if len(x.Args) >= 1 && fieldOf(info, x.Args[0]) == m.fVisited {
-						m.visitedMut = append(m.visitedMut, c14Site{fi, litOf(x), x})
+					if len(x.Args) >= 1 && isVisited(x.Args[0]) {
+						m.visitedMut = append(m.visitedMut, c14Site{fi, x})
 					}
+				}
+				if fn := callee(info, x); fn != nil && fn.Pkg() == pk.Types {
+					calls[fi.Obj][fn.Origin()] = true
 				}
 			case *ast.AssignStmt:
 				for _, l := range x.Lhs {
 					if fieldOf(info, l) == m.fVisited {
-						m.visitedMut = append(m.visitedMut, c14Site{fi, litOf(x), x})
+						m.visitedMut = append(m.visitedMut, c14Site{fi, x})
+					}
+					if ix, ok := ast.Unparen(l).(*ast.IndexExpr); ok && isVisited(ix.X) {
+						m.visitedStores = append(m.visitedStores, c14Site{fi, x})
 					}
 				}
 			}
@@ -360,24 +279,57 @@ func c14Load(r *core.R) *c14Model {
 		})
 	}
 
-	// the DFS function: the method of the ordering that sends on the output channel
-	for _, s := range m.sends {
-		if s.lit == nil && namedPath(c14RecvType(s.fi)) == namedPath(named) {
-			if m.walk == nil {
-				m.walk = s.fi
-				m.send = s.node.(*ast.SendStmt)
+	// the DFS: a recursive function from which a send on the output channel is reached, entered from outside the recursion
+	reach := func(from *types.Func) map[*types.Func]bool {
+		seen := map[*types.Func]bool{}
+		var visit func(f *types.Func)
+		visit = func(f *types.Func) {
+			for g := range calls[f] {
+				if !seen[g] {
+					seen[g] = true
+					visit(g)
+				}
 			}
 		}
+		visit(from)
+		return seen
 	}
-	if m.walk == nil {
-		r.Anchor("method of ChildFirstOrdering that sends on the output channel (the DFS walk)")
-		return nil
+	cand := map[*types.Func]bool{}
+	for f := range calls {
+		rs := reach(f)
+		if !rs[f] {
+			continue
+		}
+		sends := sendFns[f]
+		for g := range rs {
+			sends = sends || sendFns[g]
+		}
+		if sends {
+			cand[f] = true
+		}
 	}
-	m.recv = c14RecvObj(info, m.walk)
+	var roots []*types.Func
+	for f := range cand {
+		entered := false
+		for caller, cs := range calls {
+			if cs[f] && !cand[caller] {
+				entered = true
+			}
+		}
+		if entered {
+			roots = append(roots, f)
+		}
+	}
+	if len(roots) != 1 {
+		return fail("the DFS of ChildFirstOrdering: exactly one recursive function of package annotate that reaches the send on the output channel and is entered from outside the recursion (found %d)", len(roots))
+	}
+	m.walk = byObj[roots[0]]
 	sig := m.walk.Obj.Type().(*types.Signature)
-	nID, nPath := 0, 0
-	for i := 0; i < sig.Params().Len(); i++ {
-		pv := sig.Params().At(i)
+	nID, nPath, nOrd := 0, 0, 0
+	consider := func(pv *types.Var) {
+		if pv == nil {
+			return
+		}
 		if namedPath(pv.Type()) == c14RelID {
 			if _, isPtr := pv.Type().(*types.Pointer); !isPtr {
 				m.idParam = pv
@@ -388,1662 +340,88 @@ func c14Load(r *core.R) *c14Model {
 			m.pathParam = pv
 			nPath++
 		}
-	}
-	if m.recv == nil || nID != 1 || nPath != 1 || sig.Results().Len() != 1 {
-		r.Anchor(fmt.Sprintf("%s with one osm.RelationID parameter (the id walked), one []osm.RelationID parameter (the DFS path) and an error result", m.walk.Name()))
-		return nil
-	}
-	m.g = newCFG(info, m.walk.Decl.Body)
-	m.dom = dominators(m.g)
-	m.par = parentsOf(r.P, m.walk)
-	m.conds = c14Conds(m.g, m.walk.Decl.Body)
-	m.sendBlk, m.sendIdx = blockOf(m.g, m.send.Pos())
-	if m.sendBlk == nil || !m.sendBlk.Live {
-		r.Anchor("the send on the output channel in the control-flow graph of " + m.walk.Name())
-		return nil
-	}
-	inspectNoLit(m.walk.Decl.Body, func(n ast.Node) bool {
-		if call, ok := n.(*ast.CallExpr); ok && callee(info, call) == m.walk.Obj {
-			m.rec = append(m.rec, call)
+		if namedPath(pv.Type()) == namedPath(named) {
+			m.ordParam = pv
+			nOrd++
 		}
-		return true
-	})
+	}
+	consider(sig.Recv())
+	for i := 0; i < sig.Params().Len(); i++ {
+		consider(sig.Params().At(i))
+	}
+	if nID != 1 || nPath != 1 || nOrd != 1 || sig.Results().Len() != 1 || namedPath(sig.Results().At(0).Type()) != "error" {
+		return fail("%s with the ordering as receiver or parameter, one osm.RelationID parameter (the id walked), one []osm.RelationID parameter (the DFS path) and an error result", m.walk.Name())
+	}
+	// the declared objects of the parameters (the signature's variables are the same objects as the declaration's)
+	m.eng = c14NewEng(p)
+	m.eng.noInline[m.walk.Obj] = true
 
-	// constructor: the variable holding the new ordering, the go statements
-	m.ctorG = newCFG(info, m.ctor.Decl.Body)
-	m.ctorDom = dominators(m.ctorG)
-	m.ctorPar = parentsOf(r.P, m.ctor)
-	ast.Inspect(m.ctor.Decl.Body, func(n ast.Node) bool {
-		switch x := n.(type) {
-		case *ast.GoStmt:
-			m.goStmts = append(m.goStmts, x)
-		case *ast.AssignStmt:
-			if len(x.Lhs) == 1 && len(x.Rhs) == 1 && m.ordVar == nil {
-				if t := info.TypeOf(x.Rhs[0]); t != nil && namedPath(t) == namedPath(named) {
-					if _, isCall := ast.Unparen(x.Rhs[0]).(*ast.CallExpr); !isCall {
-						m.ordVar = objOf(info, x.Lhs[0])
-					}
-				}
+	m.wg = m.eng.explore("dfs", m.eng.fnOfDecl(m.walk), nil, nil, nil)
+	m.cg = m.eng.explore("constructor", m.eng.fnOfDecl(m.ctor), nil, nil, nil)
+	m.ng = m.eng.explore("Next", m.eng.fnOfDecl(m.next), nil, nil, nil)
+	m.xg = m.eng.explore("Close", m.eng.fnOfDecl(m.closeFn), nil, nil, nil)
+	for _, g := range []*c14Graph{m.wg, m.cg, m.ng, m.xg} {
+		if g.truncated {
+			return fail("exploration of %s within %d states", g.name, c14MaxStates)
+		}
+	}
+	m.ord[m.wg] = m.wg.varVal(m.wg.root, m.ordParam) // receiver, or the parameter of the ordering's type
+	for _, g := range []*c14Graph{m.ng, m.xg} {
+		if g.root.fn.recv == nil {
+			return fail("receiver of %s", g.root.fn.name)
+		}
+		m.ord[g] = g.varVal(g.root, g.root.fn.recv)
+	}
+	// the constructor's result is the new ordering
+	for _, s := range m.cg.exitStates() {
+		ret := s.n.ast.(*ast.ReturnStmt)
+		if len(ret.Results) != 1 {
+			return fail("NewChildFirstOrdering returning the new ordering")
+		}
+		v := c14StripAddr(m.cg.canon(s.n.ctx, ret.Results[0], s.n))
+		if o := m.ord[m.cg]; o != nil && o.key != v.key {
+			return fail("NewChildFirstOrdering returning one and the same new ordering on every path")
+		}
+		m.ord[m.cg] = v
+	}
+	if m.ord[m.cg] == nil {
+		return fail("NewChildFirstOrdering returning the new ordering")
+	}
+	// the producer: what the single go statement of the constructor starts
+	var gos []*c14Node
+	for _, n := range m.cg.gos {
+		if len(m.cg.byNode[n]) > 0 {
+			gos = append(gos, n)
+		}
+	}
+	if len(gos) == 1 {
+		m.goNode = gos[0]
+		call := gos[0].ast.(*ast.GoStmt).Call
+		var fn *c14Fn
+		if lit, ok := ast.Unparen(call.Fun).(*ast.FuncLit); ok {
+			fn = m.eng.fnOfLit(gos[0].ctx.fn.pk, lit)
+		} else if fo := callee(gos[0].ctx.fn.info, call); fo != nil && !m.eng.noInline[fo.Origin()] {
+			fn = m.eng.declFn(fo)
+		} else if v := m.cg.canon(gos[0].ctx, call.Fun, gos[0]); v.k == 'o' {
+			// `produce := func() {…}; go produce()`: a local closure with a unique definition
+			if lit, ok := v.node.(*ast.FuncLit); ok {
+				fn = m.eng.fnOfLit(gos[0].ctx.fn.pk, lit)
 			}
 		}
-		return true
-	})
-	if len(m.goStmts) == 1 {
-		m.lit, _ = ast.Unparen(m.goStmts[0].Call.Fun).(*ast.FuncLit)
+		if fn != nil {
+			m.pg = m.eng.explore("producer", fn, gos[0].ctx, call, gos[0])
+			if m.pg.truncated {
+				return fail("exploration of the producer goroutine within %d states", c14MaxStates)
+			}
+			m.ord[m.pg] = m.ord[m.cg]
+		}
+	}
+	if os.Getenv("C14_DEBUG") != "" {
+		for _, g := range []*c14Graph{m.wg, m.cg, m.pg, m.ng, m.xg} {
+			if g != nil {
+				fmt.Fprint(os.Stderr, g.dump())
+			}
+		}
 	}
 	return m
-}
-
-func c14RecvType(fi *FuncInfo) types.Type {
-	if recv := fi.Obj.Type().(*types.Signature).Recv(); recv != nil {
-		return recv.Type()
-	}
-	return nil
-}
-
-// ---------------------------------------------------------------------------
-// select shape
-
-type c14Select struct {
-	sel        *ast.SelectStmt
-	own        *ast.CommClause
-	done       *ast.CommClause
-	hasDefault bool
-}
-
-// c14IsDoneRecv reports whether e is `<-base.ctx.Done()` on the ordering's own context field.
-func (m *c14Model) isDoneRecv(e ast.Expr, base types.Object) bool {
-	u, ok := ast.Unparen(e).(*ast.UnaryExpr)
-	if !ok || u.Op != token.ARROW {
-		return false
-	}
-	call, ok := ast.Unparen(u.X).(*ast.CallExpr)
-	if !ok || len(call.Args) != 0 {
-		return false
-	}
-	if !isMethod(callee(m.info, call), "context.Context", "Done") {
-		return false
-	}
-	sel, ok := ast.Unparen(call.Fun).(*ast.SelectorExpr)
-	return ok && c14OnBase(m.info, sel.X, m.fCtx, base)
-}
-
-func c14CommRecv(comm ast.Stmt) ast.Expr {
-	switch x := comm.(type) {
-	case *ast.ExprStmt:
-		return x.X
-	case *ast.AssignStmt:
-		if len(x.Rhs) == 1 {
-			return x.Rhs[0]
-		}
-	}
-	return nil
-}
-
-// selectOf returns the select statement whose communication clause is comm, or nil.
-func (m *c14Model) selectOf(par map[ast.Node]ast.Node, comm ast.Node, base types.Object) *c14Select {
-	cl, ok := par[comm].(*ast.CommClause)
-	if !ok || cl.Comm != comm {
-		return nil
-	}
-	blk, _ := par[cl].(*ast.BlockStmt)
-	sel, _ := par[blk].(*ast.SelectStmt)
-	if sel == nil {
-		return nil
-	}
-	s := &c14Select{sel: sel, own: cl}
-	for _, c := range sel.Body.List {
-		cc := c.(*ast.CommClause)
-		if cc.Comm == nil {
-			s.hasDefault = true
-			continue
-		}
-		if cc == cl {
-			continue
-		}
-		if e := c14CommRecv(cc.Comm); e != nil && m.isDoneRecv(e, base) {
-			s.done = cc
-		}
-	}
-	return s
-}
-
-// ---------------------------------------------------------------------------
-// W1 emit-after-children
-
-func c14W1(r *core.R) {
-	m := c14Load(r)
-	if m == nil {
-		return
-	}
-	info, fn, fs := m.info, m.walk.Name(), r.P.Fset
-	r.Stat("functions_scanned", m.nFuncs)
-
-	// the single emission site sends the id being walked
-	c := "send-site@" + fn
-	switch {
-	case len(m.sends) != 1:
-		r.Bad(c, m.send.Pos(), "%d send statements on the output channel in package annotate; the ordering emits at exactly one site (the post-order position of the DFS), any further site emits out of order or twice", len(m.sends))
-	case objOf(info, m.send.Value) != m.idParam:
-		r.Bad(c, m.send.Pos(), "`%s` does not send the id being walked (parameter %s): the emitted id is not the relation whose children were just completed", src(fs, m.send), m.idParam.Name())
-	case len(c14Writes(info, m.walk.Decl.Body, m.idParam)) > 0:
-		r.Bad(c, m.send.Pos(), "parameter %s is reassigned inside %s; the emitted id is no longer the id the visited test and the history lookup used", m.idParam.Name(), fn)
-	default:
-		r.OK(c, m.send.Pos(), "the only send on the output channel in package annotate is `%s`, its value is the (never reassigned) id parameter", src(fs, m.send))
-	}
-
-	if len(m.rec) == 0 {
-		r.Bad("post-order@"+fn, m.walk.Decl.Pos(), "%s never calls itself: relation members are not walked before their parent is emitted", fn)
-		return
-	}
-	after := reachableFrom(m.sendBlk.Succs, nil)
-	for _, call := range m.rec {
-		cb, ci := blockOf(m.g, call.Pos())
-		if cb == nil {
-			r.Unknown("post-order@"+fn, call.Pos(), "recursive call `%s` not located in the control-flow graph", src(fs, call))
-			continue
-		}
-		if after[cb] || (cb == m.sendBlk && ci > m.sendIdx) {
-			r.Bad("post-order@"+fn, call.Pos(), "the recursive call `%s` is reachable after the send `%s` (%s): a parent can be emitted before the children walked by that call (graph 1→2, request [1] emits 1 before 2)",
-				src(fs, call), src(fs, m.send), r.P.Rel(m.send.Pos()))
-			continue
-		}
-		r.OK("post-order@"+fn, call.Pos(), "no control-flow path leads from the send `%s` back to `%s` (%d blocks reachable after the send)", src(fs, m.send), src(fs, call), len(after))
-
-		// the send is only reached once the outermost loop around the recursion is exhausted
-		var outer ast.Node
-		for p := m.par[ast.Node(call)]; p != nil; p = m.par[p] {
-			switch p.(type) {
-			case *ast.RangeStmt, *ast.ForStmt:
-				outer = p
-			}
-		}
-		c2 := "members-complete@" + fn
-		if outer == nil {
-			r.Unknown(c2, call.Pos(), "the recursive call is not inside a loop over the members (enumerated idiom: `for … range history { for … range r.Members { … walk(child) } }`)")
-			continue
-		}
-		done := c14KindBlock(m.g, outer, cfg.KindRangeDone, cfg.KindForDone)
-		if done == nil {
-			r.Unknown(c2, outer.Pos(), "loop exit block not found in the control-flow graph")
-			continue
-		}
-		if done != m.sendBlk && !m.dom[m.sendBlk][done] {
-			r.Bad(c2, m.send.Pos(), "the send `%s` can be reached without exhausting the loop at %s that walks the members: the id is emitted although some of its relation members have not been walked (child emitted after its parent)",
-				src(fs, m.send), r.P.Rel(outer.Pos()))
-			continue
-		}
-		r.OK(c2, m.send.Pos(), "the send is dominated by the exit of the outermost member loop (%s): every version's members have been walked on every path to the emission", r.P.Rel(outer.Pos()))
-	}
-}
-
-// ---------------------------------------------------------------------------
-// W2 emit-once
-
-type c14VisitedTest struct {
-	c               c14Cond
-	key             ast.Expr
-	present, absent *cfg.Block
-}
-
-// visitedTests finds the membership tests on the visited set in walk. Idioms:
-//
-//	if _, ok := o.visited[K]; ok {…}   (also with the lookup in the preceding statement, and `!ok`)
-//	if o.visited[K] {…}                 (map[…]bool)
-func (m *c14Model) visitedTests() []c14VisitedTest {
-	info := m.info
-	var out []c14VisitedTest
-	lookup := func(e ast.Expr) ast.Expr {
-		ix, ok := ast.Unparen(e).(*ast.IndexExpr)
-		if ok && c14OnBase(info, ix.X, m.fVisited, m.recv) {
-			return ix.Index
-		}
-		return nil
-	}
-	for _, c := range m.conds {
-		if k := lookup(c.expr); k != nil {
-			out = append(out, c14VisitedTest{c, k, c.t, c.f})
-			continue
-		}
-		okObj := objOf(info, c.expr)
-		if okObj == nil {
-			continue
-		}
-		ws := c14Writes(info, m.walk.Decl.Body, okObj)
-		if len(ws) != 1 {
-			continue
-		}
-		as, ok := ws[0].(*ast.AssignStmt)
-		if !ok || len(as.Lhs) != 2 || len(as.Rhs) != 1 || objOf(info, as.Lhs[1]) != okObj {
-			continue
-		}
-		if k := lookup(as.Rhs[0]); k != nil {
-			// the lookup must be evaluated immediately before the test (same block)
-			if b, _ := blockOf(m.g, as.Pos()); b == c.blk {
-				out = append(out, c14VisitedTest{c, k, c.t, c.f})
-			}
-		}
-	}
-	return out
-}
-
-func c14W2(r *core.R) {
-	m := c14Load(r)
-	if m == nil {
-		return
-	}
-	info, fn, fs := m.info, m.walk.Name(), r.P.Fset
-
-	// (a) membership test
-	c := "visited-test@" + fn
-	tests := m.visitedTests()
-	var vt *c14VisitedTest
-	for i := range tests {
-		if objOf(info, tests[i].key) == m.idParam {
-			vt = &tests[i]
-			break
-		}
-	}
-	switch {
-	case vt == nil && len(tests) > 0:
-		r.Bad(c, tests[0].c.expr.Pos(), "the visited test looks up `%s`, not the id being walked (%s): an id already emitted is walked and emitted again", src(fs, tests[0].key), m.idParam.Name())
-	case vt == nil:
-		r.Bad(c, m.walk.Decl.Pos(), "%s has no membership test on the visited set for its id: a relation that is a member of two parents, or requested twice (ids [1,1]), is emitted twice", fn)
-	case !m.dom[m.sendBlk][vt.c.blk]:
-		r.Bad(c, vt.c.expr.Pos(), "the visited test `%s` does not dominate the send `%s`: some path emits without consulting the visited set", src(fs, vt.c.ifs.Cond), src(fs, m.send))
-	case reachableFrom([]*cfg.Block{vt.present}, func(b *cfg.Block) bool { return b == vt.c.blk })[m.sendBlk]:
-		r.Bad(c, vt.c.expr.Pos(), "the send is reachable from the already-visited edge of `%s`: an id found in the visited set is emitted again", src(fs, vt.c.ifs.Cond))
-	default:
-		r.OK(c, vt.c.expr.Pos(), "`%s` on the id parameter dominates the send; its already-visited edge never reaches the send", src(fs, vt.c.ifs.Cond))
-	}
-
-	// (b) store
-	c = "visited-store@" + fn
-	var store *ast.AssignStmt
-	var storeKey ast.Expr
-	inspectNoLit(m.walk.Decl.Body, func(n ast.Node) bool {
-		as, ok := n.(*ast.AssignStmt)
-		if !ok {
-			return true
-		}
-		for _, l := range as.Lhs {
-			if ix, ok := ast.Unparen(l).(*ast.IndexExpr); ok && c14OnBase(info, ix.X, m.fVisited, m.recv) {
-				if store == nil || objOf(info, ix.Index) == m.idParam {
-					store, storeKey = as, ix.Index
-				}
-			}
-		}
-		return true
-	})
-	ownClause, _ := m.par[ast.Node(m.send)].(*ast.CommClause)
-	switch {
-	case store == nil:
-		r.Bad(c, m.send.Pos(), "nothing in %s records the id in the visited set: a relation that is a member of two parents, or requested twice, is emitted once per walk (graph 1→3, 2→3, request [1,2] emits 3 twice)", fn)
-	case objOf(info, storeKey) != m.idParam:
-		r.Bad(c, store.Pos(), "`%s` records `%s`, not the id being walked (%s): the emitted id stays unvisited and is emitted again on the next walk", src(fs, store), src(fs, storeKey), m.idParam.Name())
-	case posDominates(m.g, m.dom, store.Pos(), m.send.Pos()):
-		r.OK(c, store.Pos(), "`%s` dominates the send: the id is in the visited set whenever it has been emitted", src(fs, store))
-	default:
-		// idiom B: the store post-dominates the emission (every path from the send case to an exit passes it)
-		okB := false
-		if ownClause != nil {
-			if cb := c14KindBlock(m.g, ownClause, cfg.KindSelectCaseBody); cb != nil {
-				sb, _ := blockOf(m.g, store.Pos())
-				okB = sb != nil
-				for b := range reachableFrom([]*cfg.Block{cb}, func(b *cfg.Block) bool { return b == sb }) {
-					if b != sb && len(b.Succs) == 0 {
-						okB = false
-					}
-				}
-			}
-		}
-		if okB {
-			r.OK(c, store.Pos(), "`%s` lies on every path from the emission to the function's exits (no recursion after the send, W1)", src(fs, store))
-		} else {
-			r.Bad(c, store.Pos(), "`%s` neither dominates the send nor lies on every path after it: an emitted id can stay outside the visited set and be emitted again", src(fs, store))
-		}
-	}
-
-	// (b2) an id is marked visited only when its emission is attempted: the cycle cut and the not-found exit leave
-	// walk without emitting, and a relation left that way must stay unvisited so that its own requested id still emits it.
-	var allStores []*ast.AssignStmt
-	inspectNoLit(m.walk.Decl.Body, func(n ast.Node) bool {
-		if as, ok := n.(*ast.AssignStmt); ok {
-			for _, l := range as.Lhs {
-				if ix, ok := ast.Unparen(l).(*ast.IndexExpr); ok && c14OnBase(info, ix.X, m.fVisited, m.recv) {
-					allStores = append(allStores, as)
-				}
-			}
-		}
-		return true
-	})
-	for _, store := range allStores {
-		if reachableFrom([]*cfg.Block{m.sendBlk}, nil)[func() *cfg.Block { b, _ := blockOf(m.g, store.Pos()); return b }()] && !posDominates(m.g, m.dom, store.Pos(), m.send.Pos()) {
-			continue // a store after the emission (idiom B) marks only emitted ids
-		}
-		c2 := "visited-only-when-emitting@" + fn
-		var sel *ast.SelectStmt
-		for p := m.par[ast.Node(m.send)]; p != nil; p = m.par[p] {
-			if s, ok := p.(*ast.SelectStmt); ok {
-				sel = s
-				break
-			}
-		}
-		inEmit := func(b *cfg.Block) bool {
-			if b == m.sendBlk {
-				return true
-			}
-			for _, n := range b.Nodes {
-				if sel != nil && n.Pos() >= sel.Pos() && n.End() <= sel.End() {
-					return true
-				}
-			}
-			return false
-		}
-		sb, si := blockOf(m.g, store.Pos())
-		why := ""
-		var wpos token.Pos
-		scan := func(b *cfg.Block, from int) {
-			for _, n := range b.Nodes[from:] {
-				ast.Inspect(n, func(x ast.Node) bool {
-					if call, ok := x.(*ast.CallExpr); ok && callee(info, call) == m.walk.Obj && why == "" {
-						why, wpos = "a recursive call `"+src(fs, call)+"` runs after the id was marked visited and before it is emitted", call.Pos()
-					}
-					return true
-				})
-				if ret, ok := n.(*ast.ReturnStmt); ok && why == "" {
-					why, wpos = "`"+src(fs, ret)+"` leaves "+fn+" after the id was marked visited without an emission having been attempted", ret.Pos()
-				}
-			}
-		}
-		if sb != nil && !inEmit(sb) {
-			scan(sb, si+1)
-			seen := map[*cfg.Block]bool{sb: true}
-			work := append([]*cfg.Block{}, sb.Succs...)
-			for len(work) > 0 && why == "" {
-				b := work[len(work)-1]
-				work = work[:len(work)-1]
-				if seen[b] || inEmit(b) {
-					continue
-				}
-				seen[b] = true
-				scan(b, 0)
-				if len(b.Succs) == 0 && why == "" {
-					why, wpos = "a path leaves "+fn+" after the id was marked visited without an emission having been attempted", store.Pos()
-				}
-				work = append(work, b.Succs...)
-			}
-		}
-		if why != "" {
-			r.Bad(c2, wpos, "%s: a relation whose walk is cut short (cycle cut, error) stays marked and is never emitted when its own requested id comes up (graph 1→2, 2→3, 3→2 with request [1,2,3] never emits 3)", why)
-		} else {
-			r.OK(c2, store.Pos(), "every path from `%s` goes straight into the emitting select: no recursion and no return in between", src(fs, store))
-		}
-	}
-
-	// (c) the visited set only grows
-	c = "visited-monotone"
-	bad := false
-	for _, s := range m.visitedMut {
-		if s.fi.Obj == m.ctor.Obj && s.lit == nil && len(m.goStmts) == 1 && posDominates(m.ctorG, m.ctorDom, s.node.Pos(), m.goStmts[0].Pos()) {
-			continue // initialisation before the producer starts
-		}
-		bad = true
-		r.Bad(c, s.node.Pos(), "`%s` in %s removes or replaces entries of the visited set: ids emitted before it can be emitted again", src(fs, s.node), s.fi.Name())
-	}
-	if !bad {
-		r.OKTrivial(c, m.walk.Decl.Pos(), "no delete/clear/reassignment of the visited set after the producer starts (%d functions of package annotate scanned)", m.nFuncs)
-	}
-
-	// (d) walk runs on one goroutine only: every use is a plain call from walk itself or from the producer closure
-	c = "callers@" + fn
-	nCalls, badUse := 0, false
-	var rootCalls []*ast.CallExpr
-	for _, fi := range allFuncs(m.pk) {
-		par := parentsOf(r.P, fi)
-		ast.Inspect(fi.Decl.Body, func(n ast.Node) bool {
-			id, ok := n.(*ast.Ident)
-			if !ok || info.Uses[id] != m.walk.Obj {
-				return true
-			}
-			sel, _ := par[id].(*ast.SelectorExpr)
-			call, _ := par[sel].(*ast.CallExpr)
-			lit, _ := enclosing(par, id, func(x ast.Node) bool { _, ok := x.(*ast.FuncLit); return ok }).(*ast.FuncLit)
-			why := ""
-			switch {
-			case sel == nil || call == nil || call.Fun != ast.Expr(sel):
-				why = "is used as a method value"
-			case func() bool { _, g := par[call].(*ast.GoStmt); return g }():
-				why = "is started on its own goroutine"
-			case func() bool { _, d := par[call].(*ast.DeferStmt); return d }():
-				why = "is deferred"
-			case fi.Obj == m.walk.Obj && lit == nil:
-				nCalls++
-			case fi.Obj == m.ctor.Obj && m.lit != nil && lit == m.lit:
-				nCalls++
-				rootCalls = append(rootCalls, call)
-			default:
-				why = "is called outside the DFS and the producer goroutine"
-			}
-			if why != "" {
-				badUse = true
-				r.Bad(c, id.Pos(), "%s %s in %s: the visited set and the DFS path are not synchronised, so the emit-once argument (sequential test, store, send) no longer holds", fn, why, fi.Name())
-			}
-			return true
-		})
-	}
-	if !badUse {
-		r.OK(c, m.walk.Decl.Pos(), "%d call sites, all plain calls inside %s or inside the single producer closure of %s: visited/path are confined to one goroutine", nCalls, fn, m.ctor.Name())
-	}
-
-	// (e) the producer loop walks every requested id, in order, through the same test
-	c = "producer-loop@" + m.ctor.Name()
-	if m.lit == nil || len(rootCalls) != 1 {
-		r.Bad(c, m.ctor.Decl.Pos(), "expected exactly one producer goroutine (`go func(){…}()`) with exactly one call of %s (found %d go statements, %d calls)", fn, len(m.goStmts), len(rootCalls))
-		return
-	}
-	root := rootCalls[0]
-	lg := newCFG(info, m.lit.Body)
-	ldom := dominators(lg)
-	var loop *ast.RangeStmt
-	for p := m.ctorPar[ast.Node(root)]; p != nil && p != ast.Node(m.lit); p = m.ctorPar[p] {
-		if rs, ok := p.(*ast.RangeStmt); ok {
-			loop = rs
-			break
-		}
-		if _, ok := p.(*ast.ForStmt); ok {
-			break
-		}
-	}
-	idsParam := func() types.Object {
-		if loop == nil {
-			return nil
-		}
-		o := objOf(info, loop.X)
-		sig := m.ctor.Obj.Type().(*types.Signature)
-		for i := 0; i < sig.Params().Len(); i++ {
-			if sig.Params().At(i) == o {
-				if sl, ok := o.Type().Underlying().(*types.Slice); ok && namedPath(sl.Elem()) == c14RelID {
-					return o
-				}
-			}
-		}
-		return nil
-	}()
-	idArg := -1
-	sig := m.walk.Obj.Type().(*types.Signature)
-	for i := 0; i < sig.Params().Len(); i++ {
-		if sig.Params().At(i) == m.idParam {
-			idArg = i
-		}
-	}
-	switch {
-	case loop == nil:
-		r.Unknown(c, root.Pos(), "the producer's call `%s` is not inside a range loop (enumerated idiom: `for _, id := range ids { err := walk(id, path); if err != nil {…; return} }`)", src(fs, root))
-	case idsParam == nil:
-		r.Bad(c, loop.Pos(), "the producer loop ranges over `%s`, which is not the constructor's complete []osm.RelationID parameter: some requested relations are never walked and never emitted", src(fs, loop.X))
-	case len(c14Writes(info, m.ctor.Decl.Body, idsParam)) > 0:
-		r.Bad(c, loop.Pos(), "the request list `%s` is reassigned in the constructor before/while it is ranged over", src(fs, loop.X))
-	case loop.Value == nil || idArg < 0 || idArg >= len(root.Args) || objOf(info, root.Args[idArg]) != objOf(info, loop.Value):
-		r.Bad(c, root.Pos(), "`%s` does not pass the loop's element of the request list as the id to walk", src(fs, root))
-	default:
-		head := c14KindBlock(lg, loop, cfg.KindRangeLoop)
-		cb, _ := blockOf(lg, root.Pos())
-		if head == nil || cb == nil || len(head.Succs) != 2 {
-			r.Unknown(c, loop.Pos(), "producer loop not located in the control-flow graph")
-			break
-		}
-		if cb != head.Succs[0] {
-			r.Bad(c, root.Pos(), "the call `%s` is not executed unconditionally at the start of every iteration: some requested ids are skipped without being walked", src(fs, root))
-			break
-		}
-		// error idiom: err := walk(...); if err != nil { …; return }
-		as, _ := m.ctorPar[ast.Node(root)].(*ast.AssignStmt)
-		var errObj types.Object
-		if as != nil && len(as.Lhs) == 1 {
-			errObj = objOf(info, as.Lhs[0])
-		}
-		stops := false
-		for _, cd := range c14Conds(lg, m.lit.Body) {
-			be, ok := cd.expr.(*ast.BinaryExpr)
-			if !ok || errObj == nil || !ldom[cd.blk][cb] && cd.blk != cb {
-				continue
-			}
-			var edge *cfg.Block
-			switch {
-			case be.Op == token.NEQ && objOf(info, be.X) == errObj && c14IsNil(info, be.Y):
-				edge = cd.t
-			case be.Op == token.EQL && objOf(info, be.X) == errObj && c14IsNil(info, be.Y):
-				edge = cd.f
-			default:
-				continue
-			}
-			if !reachableFrom([]*cfg.Block{edge}, nil)[head] {
-				stops = true
-			}
-		}
-		if !stops {
-			r.Bad(c, root.Pos(), "the error of `%s` does not end the producer loop (`if err != nil { …; return }`): after a datasource error or cancellation the goroutine keeps walking the remaining ids", src(fs, root))
-			break
-		}
-		r.OK(c, root.Pos(), "`for … range %s` calls `%s` first thing in every iteration with the loop element; a non-nil error leaves the loop; duplicates in the request list run into the dominating visited test of %s", src(fs, loop.X), src(fs, root), fn)
-	}
-}
-
-// ---------------------------------------------------------------------------
-// W3 cycle cut, termination, histories not found, error propagation
-
-// c14Scan is the scan of the DFS path that precedes a recursive call.
-type c14Scan struct {
-	rs         *ast.RangeStmt
-	head, done *cfg.Block
-	c          c14Cond
-	match      *cfg.Block // edge taken when an element of the path equals the member id
-	nomatch    *cfg.Block
-}
-
-// scanFor finds `for _, p := range path { if p == X {…} }` with X the first argument of the recursive call.
-func (m *c14Model) scanFor(x ast.Expr) (*c14Scan, string) {
-	info := m.info
-	why := "no loop over the path parameter compares its elements with the member id"
-	var found *c14Scan
-	inspectNoLit(m.walk.Decl.Body, func(n ast.Node) bool {
-		rs, ok := n.(*ast.RangeStmt)
-		if !ok || found != nil || objOf(info, rs.X) != types.Object(m.pathParam) || rs.Value == nil {
-			return true
-		}
-		pv := objOf(info, rs.Value)
-		for _, c := range m.conds {
-			if c.ifs.Pos() < rs.Body.Pos() || c.ifs.End() > rs.Body.End() {
-				continue
-			}
-			be, ok := c.expr.(*ast.BinaryExpr)
-			if !ok || (be.Op != token.EQL && be.Op != token.NEQ) {
-				continue
-			}
-			var other ast.Expr
-			switch {
-			case objOf(info, be.X) == pv:
-				other = be.Y
-			case objOf(info, be.Y) == pv:
-				other = be.X
-			default:
-				continue
-			}
-			if !c14Same(info, other, x) {
-				why = fmt.Sprintf("the path scan compares against `%s`, not against the id handed to the recursive call", src(m.p.Fset, other))
-				continue
-			}
-			s := &c14Scan{rs: rs, c: c, match: c.t, nomatch: c.f}
-			if be.Op == token.NEQ {
-				s.match, s.nomatch = c.f, c.t
-			}
-			s.head = c14KindBlock(m.g, rs, cfg.KindRangeLoop)
-			s.done = c14KindBlock(m.g, rs, cfg.KindRangeDone)
-			found = s
-		}
-		return true
-	})
-	return found, why
-}
-
-// c14ErrCondReturns recognises, for error variable errObj, a dominating-from-pos test
-// `errObj != nil` whose true edge returns a value mentioning errObj.
-func (m *c14Model) errReturned(errObj types.Object, from *cfg.Block) *c14Cond {
-	for i := range m.conds {
-		c := m.conds[i]
-		be, ok := c.expr.(*ast.BinaryExpr)
-		if !ok || objOf(m.info, be.X) != errObj || !c14IsNil(m.info, be.Y) {
-			continue
-		}
-		var edge *cfg.Block
-		switch be.Op {
-		case token.NEQ:
-			edge = c.t
-		case token.EQL:
-			edge = c.f
-		default:
-			continue
-		}
-		if c.blk != from && !m.dom[c.blk][from] {
-			continue
-		}
-		if len(edge.Nodes) == 0 {
-			continue
-		}
-		ret, ok := edge.Nodes[len(edge.Nodes)-1].(*ast.ReturnStmt)
-		if !ok || len(ret.Results) == 0 || !usesObj(m.info, ret.Results[len(ret.Results)-1], errObj) {
-			continue
-		}
-		return &m.conds[i]
-	}
-	return nil
-}
-
-// historyCall finds `rels, err := o.ds.RelationHistory(ctx, id)` in walk.
-func (m *c14Model) historyCall() (call *ast.CallExpr, rels, errObj types.Object) {
-	inspectNoLit(m.walk.Decl.Body, func(n ast.Node) bool {
-		as, ok := n.(*ast.AssignStmt)
-		if !ok || len(as.Lhs) != 2 || len(as.Rhs) != 1 || call != nil {
-			return true
-		}
-		ce, ok := ast.Unparen(as.Rhs[0]).(*ast.CallExpr)
-		if !ok {
-			return true
-		}
-		fn := callee(m.info, ce)
-		sel, ok := ast.Unparen(ce.Fun).(*ast.SelectorExpr)
-		if fn == nil || fn.Name() != "RelationHistory" || !ok || !c14OnBase(m.info, sel.X, m.fDS, m.recv) {
-			return true
-		}
-		call, rels, errObj = ce, objOf(m.info, as.Lhs[0]), objOf(m.info, as.Lhs[1])
-		return true
-	})
-	return
-}
-
-// notFoundCond finds `if o.ds.NotFound(err) {…}` on the history error.
-func (m *c14Model) notFoundCond(errObj types.Object) *c14Cond {
-	for i := range m.conds {
-		ce, ok := m.conds[i].expr.(*ast.CallExpr)
-		if !ok || len(ce.Args) != 1 || objOf(m.info, ce.Args[0]) != errObj {
-			continue
-		}
-		fn := callee(m.info, ce)
-		sel, ok := ast.Unparen(ce.Fun).(*ast.SelectorExpr)
-		if fn == nil || fn.Name() != "NotFound" || !ok || !c14OnBase(m.info, sel.X, m.fDS, m.recv) {
-			continue
-		}
-		return &m.conds[i]
-	}
-	return nil
-}
-
-func (m *c14Model) argIndex(p *types.Var) int {
-	sig := m.walk.Obj.Type().(*types.Signature)
-	for i := 0; i < sig.Params().Len(); i++ {
-		if sig.Params().At(i) == p {
-			return i
-		}
-	}
-	return -1
-}
-
-func (m *c14Model) recBlocks() map[*cfg.Block]bool {
-	out := map[*cfg.Block]bool{}
-	for _, call := range m.rec {
-		if b, _ := blockOf(m.g, call.Pos()); b != nil {
-			out[b] = true
-		}
-	}
-	return out
-}
-
-func c14W3(r *core.R) {
-	m := c14Load(r)
-	if m == nil {
-		return
-	}
-	info, fn, fs := m.info, m.walk.Name(), r.P.Fset
-	iID, iPath := m.argIndex(m.idParam), m.argIndex(m.pathParam)
-	recBlks := m.recBlocks()
-
-	// parameters are never reassigned (the scan and the append see the caller's path, the tests see the caller's id)
-	c := "params-stable@" + fn
-	if w := append(c14Writes(info, m.walk.Decl.Body, m.idParam), c14Writes(info, m.walk.Decl.Body, m.pathParam)...); len(w) > 0 {
-		r.Bad(c, w[0].Pos(), "`%s` overwrites a parameter of %s: the cycle scan / path extension no longer work on the ancestors handed in by the caller", src(fs, w[0]), fn)
-	} else {
-		r.OK(c, m.walk.Decl.Pos(), "parameters %s and %s are never assigned, incremented or address-taken in %s", m.idParam.Name(), m.pathParam.Name(), fn)
-	}
-
-	if len(m.rec) == 0 {
-		r.Bad("path-arg@"+fn, m.walk.Decl.Pos(), "%s never calls itself", fn)
-	}
-	for _, call := range m.rec {
-		sel, _ := ast.Unparen(call.Fun).(*ast.SelectorExpr)
-		if sel == nil || objOf(info, sel.X) != m.recv || len(call.Args) <= iID || len(call.Args) <= iPath {
-			r.Unknown("path-arg@"+fn, call.Pos(), "recursive call `%s` is not a plain call on the receiver", src(fs, call))
-			continue
-		}
-		x, pa := call.Args[iID], call.Args[iPath]
-
-		// (a) path argument
-		c = "path-arg@" + fn
-		ap, _ := ast.Unparen(pa).(*ast.CallExpr)
-		switch {
-		case ap == nil || builtinName(info, ap) != "append" || len(ap.Args) != 2 || ap.Ellipsis.IsValid() || objOf(info, ap.Args[0]) != types.Object(m.pathParam):
-			r.Bad(c, pa.Pos(), "the recursive call passes `%s` as DFS path instead of `append(%s, %s)`: the id being entered is never recorded, the path scan never matches and a cycle (1→2→1) recurses without bound",
-				src(fs, pa), m.pathParam.Name(), src(fs, x))
-		case c14Same(info, ap.Args[1], x):
-			r.OK(c, pa.Pos(), "`%s`: the callee's path is the caller's path plus the id being entered", src(fs, pa))
-		case objOf(info, ap.Args[1]) == types.Object(m.idParam):
-			r.Unknown(c, pa.Pos(), "`%s` records the caller's id rather than the id being entered; this variant is not among the enumerated idioms (the emit-once argument on cycles relies on the entered id being on its own path)", src(fs, pa))
-		default:
-			r.Bad(c, pa.Pos(), "`%s` appends `%s`, but the id being entered (and compared by the path scan) is `%s`: the scan cannot recognise an ancestor, a cycle recurses without bound", src(fs, pa), src(fs, ap.Args[1]), src(fs, x))
-		}
-
-		// (b) the scan of the path dominates the call, a match leaves the function
-		c = "cycle-scan@" + fn
-		cb, _ := blockOf(m.g, call.Pos())
-		sc, why := m.scanFor(x)
-		stableX := true
-		if xo := objOf(info, x); xo != nil && xo != types.Object(m.idParam) {
-			stableX = len(c14Writes(info, m.walk.Decl.Body, xo)) == 1
-		}
-		switch {
-		case sc == nil:
-			r.Bad(c, call.Pos(), "%s before `%s`: on a reference cycle (1→2→1, or the self reference 1→1) the recursion never ends", why, src(fs, call))
-		case sc.head == nil || sc.done == nil || cb == nil || len(sc.head.Succs) != 2:
-			r.Unknown(c, sc.rs.Pos(), "path scan not located in the control-flow graph")
-		case !stableX:
-			r.Bad(c, call.Pos(), "`%s` is assigned more than once: the id compared by the path scan need not be the id handed to the recursive call", src(fs, x))
-		case sc.c.blk != sc.head.Succs[0]:
-			r.Bad(c, sc.c.expr.Pos(), "the comparison `%s` is not evaluated unconditionally for every element of the path: an ancestor can be missed and the cycle recursed into again", src(fs, sc.c.ifs.Cond))
-		case len(c14Preds(m.g, sc.done)) != 1:
-			r.Bad(c, sc.rs.Pos(), "the path scan can be left by `break` before all ancestors were compared; the recursive call is then reached although the member may be an ancestor")
-		case cb != sc.done && !m.dom[cb][sc.done]:
-			r.Bad(c, call.Pos(), "`%s` is not dominated by the exhausted path scan at %s: some path recurses into a member without checking whether it is an ancestor (unbounded recursion on a cycle)", src(fs, call), r.P.Rel(sc.rs.Pos()))
-		default:
-			reg := reachableFrom([]*cfg.Block{sc.match}, nil)
-			hitRec := false
-			for b := range recBlks {
-				if reg[b] {
-					hitRec = true
-				}
-			}
-			switch {
-			case hitRec && reg[sc.done] && func() bool {
-				// recursion into the matched member itself: reachable without a fresh scan
-				return reachableFrom([]*cfg.Block{sc.match}, func(b *cfg.Block) bool { return b == sc.head })[cb]
-			}():
-				r.Bad(c, sc.c.expr.Pos(), "when `%s` holds (the member is an ancestor) control still reaches `%s`: the cycle is not cut and the recursion is unbounded (graph 1→2→1)", src(fs, sc.c.ifs.Cond), src(fs, call))
-			case hitRec || reg[m.sendBlk]:
-				r.Bad(c, sc.c.expr.Pos(), "when `%s` holds (the member is an ancestor) the walk of the current id carries on (reaches %s) instead of leaving %s: on the cycle 1→2→1 with request [1] the inner activation for 1 (entered through 2) completes and emits 1, then the outer activation emits 1 again",
-					src(fs, sc.c.ifs.Cond), map[bool]string{true: "a further recursive call", false: "the send"}[hitRec], fn)
-			default:
-				r.OK(c, call.Pos(), "`%s` is dominated by the exhausted scan `for … range %s` comparing every element with `%s`; a match leaves %s without recursing or sending, so path elements stay pairwise distinct and the recursion depth is bounded by the number of distinct ids + 1",
-					src(fs, call), m.pathParam.Name(), src(fs, x), fn)
-			}
-		}
-
-		// (c) the error of the recursive call is returned
-		c = "rec-error@" + fn
-		as, _ := m.par[ast.Node(call)].(*ast.AssignStmt)
-		var eo types.Object
-		if as != nil && len(as.Lhs) == 1 {
-			eo = objOf(info, as.Lhs[0])
-		}
-		switch {
-		case eo != nil && cb != nil && m.errReturned(eo, cb) != nil:
-			ec := m.errReturned(eo, cb)
-			r.OK(c, call.Pos(), "the result of `%s` is tested by `%s` right after the call and returned when non-nil", src(fs, call), src(fs, ec.ifs.Cond))
-		case func() bool { ret, ok := m.par[ast.Node(call)].(*ast.ReturnStmt); return ok && len(ret.Results) == 1 }():
-			r.Unknown(c, call.Pos(), "`return %s` ends the member loop after the first member; not an enumerated idiom", src(fs, call))
-		default:
-			r.Bad(c, call.Pos(), "the error of `%s` is not returned: a datasource error or the cancellation observed in a child is swallowed, the parent is emitted although its child was not, and the walk goes on after Close", src(fs, call))
-		}
-	}
-
-	// (d) histories: not found → leave without emission and without error; other errors propagate
-	hc, _, errObj := m.historyCall()
-	if hc == nil {
-		r.Anchor("call of the datasource's RelationHistory in " + fn)
-		return
-	}
-	c = "notfound@" + fn
-	nf := m.notFoundCond(errObj)
-	switch {
-	case len(hc.Args) < 1 || objOf(info, hc.Args[len(hc.Args)-1]) != types.Object(m.idParam):
-		r.Bad(c, hc.Pos(), "`%s` does not look up the history of the id being walked", src(fs, hc))
-	case nf == nil:
-		r.Bad(c, hc.Pos(), "the error of `%s` is never classified with the datasource's NotFound: a missing history either aborts the whole iteration or lets the id be emitted without a history", src(fs, hc))
-	case !m.dom[m.sendBlk][nf.blk]:
-		r.Bad(c, nf.expr.Pos(), "`%s` does not dominate the send: an id can be emitted without consulting whether its history exists", src(fs, nf.ifs.Cond))
-	default:
-		reg := reachableFrom([]*cfg.Block{nf.t}, func(b *cfg.Block) bool { return b == nf.blk })
-		hit := reg[m.sendBlk]
-		for b := range recBlks {
-			hit = hit || reg[b]
-		}
-		var ret *ast.ReturnStmt
-		if len(nf.t.Nodes) > 0 {
-			ret, _ = nf.t.Nodes[len(nf.t.Nodes)-1].(*ast.ReturnStmt)
-		}
-		switch {
-		case hit:
-			r.Bad(c, nf.expr.Pos(), "from the true edge of `%s` the send (or a recursive call) is still reachable: a relation without history is emitted", src(fs, nf.ifs.Cond))
-		case ret == nil || len(ret.Results) != 1 || !c14IsNil(info, ret.Results[0]):
-			r.Bad(c, nf.expr.Pos(), "a history that is not found must end this walk with `return nil`; here it ends with `%s`, which aborts the iteration for a merely missing member", src(fs, ret))
-		default:
-			r.OK(c, nf.expr.Pos(), "`%s` on the error of `%s` dominates the send; its true edge is `return nil` and reaches neither the send nor a recursive call", src(fs, nf.ifs.Cond), src(fs, hc))
-		}
-	}
-	c = "history-error@" + fn
-	hb, _ := blockOf(m.g, hc.Pos())
-	if ec := m.errReturned(errObj, hb); ec != nil && m.dom[m.sendBlk][ec.blk] {
-		r.OK(c, ec.expr.Pos(), "`%s` dominates the send and returns the datasource error", src(fs, ec.ifs.Cond))
-	} else {
-		r.Bad(c, hc.Pos(), "a non-nil error of `%s` (other than not-found) does not end the walk with that error before the send: the id is emitted on the basis of a failed lookup", src(fs, hc))
-	}
-
-	// (e) the root call starts with an empty path, so the cycle cut can never suppress a requested id
-	c = "root-path@" + m.ctor.Name()
-	var root *ast.CallExpr
-	nRoot := 0
-	if m.lit != nil {
-		ast.Inspect(m.lit.Body, func(n ast.Node) bool {
-			if call, ok := n.(*ast.CallExpr); ok && callee(info, call) == m.walk.Obj {
-				root = call
-				nRoot++
-			}
-			return true
-		})
-	}
-	if nRoot != 1 || len(root.Args) <= iPath {
-		r.Bad(c, m.ctor.Decl.Pos(), "expected exactly one call of %s in the producer goroutine, found %d", fn, nRoot)
-		return
-	}
-	empty := func(e ast.Expr) bool {
-		e = ast.Unparen(e)
-		if c14IsNil(info, e) {
-			return true
-		}
-		switch x := e.(type) {
-		case *ast.CompositeLit:
-			return len(x.Elts) == 0
-		case *ast.CallExpr:
-			if builtinName(info, x) == "make" && len(x.Args) >= 2 {
-				v, ok := constInt(info, x.Args[1])
-				return ok && v == 0
-			}
-		}
-		return false
-	}
-	pa := root.Args[iPath]
-	okEmpty := empty(pa)
-	if po := objOf(info, pa); !okEmpty && po != nil {
-		ws := c14Writes(info, m.ctor.Decl.Body, po)
-		if len(ws) == 1 {
-			if as, ok := ws[0].(*ast.AssignStmt); ok && len(as.Lhs) == 1 && len(as.Rhs) == 1 {
-				okEmpty = empty(as.Rhs[0])
-			}
-		} else if len(ws) == 0 {
-			if v, ok := po.(*types.Var); ok && !v.IsField() && po.Parent() != nil && po.Pkg() == m.pk.Types {
-				// `var path []T` declaration without assignment
-				okEmpty = true
-				sig := m.ctor.Obj.Type().(*types.Signature)
-				for i := 0; i < sig.Params().Len(); i++ {
-					if sig.Params().At(i) == po {
-						okEmpty = false
-					}
-				}
-			}
-		}
-	}
-	if okEmpty {
-		r.OK(c, root.Pos(), "`%s`: the path argument is empty (`make(…, 0, …)`/nil, assigned once), so at the root no member matches the scan and only visited / not-found / error / cancellation can keep a requested id from being emitted", src(fs, root))
-	} else {
-		r.Bad(c, root.Pos(), "`%s` starts the walk of a requested id with a non-empty path: a requested relation that references itself (1→1) is cut as its own ancestor and never emitted", src(fs, root))
-	}
-}
-
-// ---------------------------------------------------------------------------
-// W4 no deadlock on stop
-
-func c14W4(r *core.R) {
-	m := c14Load(r)
-	if m == nil {
-		return
-	}
-	info, fs := m.info, r.P.Fset
-	ctorName := m.ctor.Name()
-
-	// (a) the ordering owns a cancellable context derived from the caller's
-	c := "ctx@" + ctorName
-	var wc *ast.AssignStmt
-	inspectNoLit(m.ctor.Decl.Body, func(n ast.Node) bool {
-		as, ok := n.(*ast.AssignStmt)
-		if ok && len(as.Lhs) == 2 && len(as.Rhs) == 1 {
-			if call, ok := ast.Unparen(as.Rhs[0]).(*ast.CallExpr); ok && isPkgFunc(callee(info, call), "context", "WithCancel") && wc == nil {
-				wc = as
-			}
-		}
-		return true
-	})
-	// value stored into a field of the new ordering (composite literal key or `o.f = v` before the go statement)
-	fieldInit := func(f *types.Var) (ast.Expr, token.Pos) {
-		var val ast.Expr
-		var pos token.Pos
-		inspectNoLit(m.ctor.Decl.Body, func(n ast.Node) bool {
-			switch x := n.(type) {
-			case *ast.CompositeLit:
-				if t := info.TypeOf(x); t == nil || namedPath(t) != namedPath(m.named) {
-					return true
-				}
-				for _, el := range x.Elts {
-					if kv, ok := el.(*ast.KeyValueExpr); ok && objOf(info, kv.Key) == types.Object(f) {
-						val, pos = kv.Value, kv.Pos()
-					}
-				}
-			case *ast.AssignStmt:
-				for i, l := range x.Lhs {
-					if c14OnBase(info, l, f, m.ordVar) && i < len(x.Rhs) {
-						val, pos = x.Rhs[i], x.Pos()
-					}
-				}
-			}
-			return true
-		})
-		return val, pos
-	}
-	if wc == nil {
-		r.Bad(c, m.ctor.Decl.Pos(), "%s does not derive a cancellable context with context.WithCancel: Close has nothing to cancel and the producer blocked in its send is never released", ctorName)
-	} else {
-		call := ast.Unparen(wc.Rhs[0]).(*ast.CallExpr)
-		ctxObj, cancelObj := objOf(info, wc.Lhs[0]), objOf(info, wc.Lhs[1])
-		ctxVal, ctxPos := fieldInit(m.fCtx)
-		canVal, canPos := fieldInit(m.fCancel)
-		parentIsParam := false
-		sig := m.ctor.Obj.Type().(*types.Signature)
-		for i := 0; i < sig.Params().Len(); i++ {
-			if len(call.Args) == 1 && objOf(info, call.Args[0]) == types.Object(sig.Params().At(i)) {
-				parentIsParam = true
-			}
-		}
-		switch {
-		case ctxObj == nil || ctxVal == nil || objOf(info, ctxVal) != ctxObj:
-			r.Bad(c, wc.Pos(), "the context stored in the ordering (`%s`) is not the one returned by `%s`: the Done cases of the send/receive selects watch a context Close never cancels, so Close blocks in Wait while the producer blocks in its send", src(fs, ctxVal), src(fs, call))
-		case cancelObj == nil || canVal == nil || objOf(info, canVal) != cancelObj:
-			r.Bad(c, wc.Pos(), "the cancel function stored in the ordering (`%s`) is not the one returned by `%s`", src(fs, canVal), src(fs, call))
-		case !parentIsParam:
-			r.Bad(c, call.Pos(), "`%s` is not derived from the constructor's context parameter: cancelling the caller's context no longer ends the iteration", src(fs, call))
-		case !posDominates(m.ctorG, m.ctorDom, wc.Pos(), ctxPos) || !posDominates(m.ctorG, m.ctorDom, wc.Pos(), canPos):
-			r.Bad(c, wc.Pos(), "the ordering's context fields are initialised before `%s` is evaluated", src(fs, wc))
-		case func() bool {
-			// between WithCancel and the store nothing else may assign the variable
-			n := 0
-			for _, w := range c14Writes(info, m.ctor.Decl.Body, ctxObj) {
-				if w != ast.Node(wc) {
-					n++
-				}
-			}
-			return n > 0
-		}():
-			r.Bad(c, wc.Pos(), "the variable receiving the derived context is assigned elsewhere in the constructor as well")
-		default:
-			r.OK(c, wc.Pos(), "`%s` derives from the constructor's context parameter; result 0 is stored in field %s, result 1 in field %s of the new ordering", src(fs, wc), m.fCtx.Name(), m.fCancel.Name())
-		}
-	}
-
-	// (b) every send on the output channel sits in a select with the ordering's Done
-	for _, s := range m.sends {
-		c = "send-select@" + s.fi.Name()
-		base := c14RecvObj(info, s.fi)
-		par := parentsOf(r.P, s.fi)
-		sel := m.selectOf(par, s.node, base)
-		switch {
-		case sel == nil:
-			r.Bad(c, s.node.Pos(), "bare send `%s` on the unbuffered output channel: when the consumer stops calling Next and calls Close, the producer stays blocked in this send and Close blocks forever in Wait", src(fs, s.node))
-		case sel.done == nil:
-			r.Bad(c, s.node.Pos(), "the select around `%s` has no `<-%s.%s.Done()` case on the ordering's own context: Close/cancellation cannot release the blocked producer", src(fs, s.node), base.Name(), m.fCtx.Name())
-		case sel.hasDefault:
-			r.Bad(c, s.node.Pos(), "the select around `%s` has a default case: the send is skipped whenever the consumer is not already waiting, so requested relations are dropped", src(fs, s.node))
-		default:
-			// the Done case leaves the walk with a non-nil error so that the recursion unwinds
-			var ret *ast.ReturnStmt
-			if n := len(sel.done.Body); n > 0 {
-				ret, _ = sel.done.Body[n-1].(*ast.ReturnStmt)
-			}
-			if ret == nil || len(ret.Results) != 1 || c14IsNil(info, ret.Results[0]) {
-				r.Bad(c, sel.done.Pos(), "the Done case of the select around `%s` does not return an error: after cancellation the DFS continues into the remaining members and ids instead of unwinding", src(fs, s.node))
-			} else {
-				r.OK(c, s.node.Pos(), "`%s` is a case of a select whose other case is `%s` and returns `%s`; no default", src(fs, s.node), src(fs, sel.done.Comm), src(fs, ret.Results[0]))
-			}
-		}
-	}
-
-	// (c) every receive from the output channel
-	deferredClose := m.deferredCloseOK()
-	if len(m.recvs) == 0 {
-		r.Bad("recv-select@"+m.next.Name(), m.next.Decl.Pos(), "Next does not receive from the output channel")
-	}
-	for _, s := range m.recvs {
-		c = "recv-select@" + s.fi.Name()
-		if s.fi.Obj != m.next.Obj || s.lit != nil {
-			r.Unknown(c, s.node.Pos(), "receive from the output channel outside Next; the consumer protocol (Next returns false on Done and on the closed channel) is only modelled for Next")
-			continue
-		}
-		ue, isUnary := s.node.(*ast.UnaryExpr)
-		if !isUnary {
-			r.Unknown(c, s.node.Pos(), "range over the output channel in Next is not an enumerated idiom")
-			continue
-		}
-		base := c14RecvObj(info, s.fi)
-		par := parentsOf(r.P, s.fi)
-		comm, _ := par[ast.Node(ue)].(ast.Stmt)
-		as, _ := comm.(*ast.AssignStmt)
-		ng := newCFG(info, m.next.Decl.Body)
-		nconds := c14Conds(ng, m.next.Decl.Body)
-		var sel *c14Select
-		if comm != nil {
-			sel = m.selectOf(par, comm, base)
-		}
-		if as == nil || len(as.Rhs) != 1 || as.Rhs[0] != ast.Expr(ue) {
-			r.Bad(c, ue.Pos(), "`%s` discards the received value: Next cannot tell a delivered id from the closed channel and never reports the end of the iteration", src(fs, comm))
-			continue
-		}
-		// closed-channel detection: `v, ok := <-out; !ok` or `v := <-out; v == 0`
-		var closed *c14Cond
-		var closedEdge *cfg.Block
-		for i := range nconds {
-			cd := nconds[i]
-			if cd.ifs.Pos() < as.Pos() {
-				continue
-			}
-			if len(as.Lhs) == 2 && objOf(info, cd.expr) != nil && objOf(info, cd.expr) == objOf(info, as.Lhs[1]) {
-				closed, closedEdge = &nconds[i], cd.f
-			}
-			if be, ok := cd.expr.(*ast.BinaryExpr); ok && len(as.Lhs) == 1 && (be.Op == token.EQL || be.Op == token.NEQ) && objOf(info, be.X) != nil && objOf(info, be.X) == objOf(info, as.Lhs[0]) {
-				if v, ok := constInt(info, be.Y); ok && v == 0 {
-					closed, closedEdge = &nconds[i], cd.t
-					if be.Op == token.NEQ {
-						closedEdge = cd.f
-					}
-				}
-			}
-			if closed != nil {
-				break
-			}
-		}
-		retFalse := func(b *cfg.Block) bool {
-			if b == nil || len(b.Nodes) == 0 {
-				return false
-			}
-			ret, ok := b.Nodes[len(b.Nodes)-1].(*ast.ReturnStmt)
-			return ok && len(ret.Results) == 1 && c14IsFalse(info, ret.Results[0])
-		}
-		var first *cfg.Block // block in which the received value becomes available
-		if sel != nil {
-			first = c14KindBlock(ng, sel.own, cfg.KindSelectCaseBody)
-		} else {
-			first, _ = blockOf(ng, as.Pos())
-		}
-		switch {
-		case closed == nil || closed.blk != first:
-			r.Bad(c, as.Pos(), "after `%s` Next does not first test for the closed channel (`!ok`, or the zero id delivered by a closed channel): once the producer has finished, Next keeps returning true with id 0 and the iteration never ends", src(fs, as))
-			continue
-		case !retFalse(closedEdge):
-			r.Bad(c, closed.expr.Pos(), "the closed-channel edge of `%s` does not `return false`: the iteration does not end when the producer has finished", src(fs, closed.ifs.Cond))
-			continue
-		}
-		switch {
-		case sel == nil && deferredClose:
-			r.OK(c, as.Pos(), "bare receive `%s`; the producer's deferred close(%s) releases it whenever the goroutine ends, the closed channel makes Next return false", src(fs, as), m.fOut.Name())
-		case sel == nil:
-			r.Bad(c, as.Pos(), "bare receive `%s` and no deferred close of the channel in the producer: after cancellation Next blocks forever", src(fs, as))
-		case sel.hasDefault:
-			r.Bad(c, as.Pos(), "the select around `%s` has a default case: Next does not wait for the producer and reports the end of the iteration early", src(fs, as))
-		case sel.done == nil && !deferredClose:
-			r.Bad(c, as.Pos(), "the select around `%s` has no Done case on the ordering's context and the channel is not closed by a deferred close: Next can block forever after cancellation", src(fs, as))
-		case sel.done != nil && !retFalse(c14KindBlock(ng, sel.done, cfg.KindSelectCaseBody)):
-			r.Bad(c, sel.done.Pos(), "the Done case of Next's select does not `return false`: a cancelled iteration is not reported as ended")
-		default:
-			r.OK(c, as.Pos(), "`%s` is a case of a select with `%s` → return false; the closed channel is recognised by `%s` → return false (0 is not a valid relation id)", src(fs, as), src(fs, sel.done.Comm), src(fs, closed.ifs.Cond))
-		}
-	}
-
-	// (d) Close cancels, then waits
-	c = "close-order@" + m.closeFn.Name()
-	cbase := c14RecvObj(info, m.closeFn)
-	cg := newCFG(info, m.closeFn.Decl.Body)
-	cdom := dominators(cg)
-	cpar := parentsOf(r.P, m.closeFn)
-	var cancelCall, waitCall *ast.CallExpr
-	inspectNoLit(m.closeFn.Decl.Body, func(n ast.Node) bool {
-		call, ok := n.(*ast.CallExpr)
-		if !ok {
-			return true
-		}
-		if _, isStmt := cpar[ast.Node(call)].(*ast.ExprStmt); !isStmt {
-			return true
-		}
-		if c14OnBase(info, call.Fun, m.fCancel, cbase) && cancelCall == nil {
-			cancelCall = call
-		}
-		if sel, ok := ast.Unparen(call.Fun).(*ast.SelectorExpr); ok && isMethod(callee(info, call), "sync.WaitGroup", "Wait") && c14OnBase(info, sel.X, m.fWG, cbase) {
-			waitCall = call
-		}
-		return true
-	})
-	switch {
-	case cancelCall == nil:
-		r.Bad(c, m.closeFn.Decl.Pos(), "Close never calls the ordering's cancel function (as a plain statement): a producer blocked in its send is not released and `%s` waits forever", src(fs, waitCall))
-	case waitCall == nil:
-		r.Bad(c, m.closeFn.Decl.Pos(), "Close does not wait for the producer goroutine (`%s.%s.Wait()`): the goroutine may still be running when Close returns", cbase.Name(), m.fWG.Name())
-	case !posDominates(cg, cdom, cancelCall.Pos(), waitCall.Pos()):
-		r.Bad(c, waitCall.Pos(), "`%s` is not preceded by `%s` on every path: Close waits for a producer that is blocked in its send until somebody cancels — deadlock when Close is called before the iteration is exhausted", src(fs, waitCall), src(fs, cancelCall))
-	default:
-		r.OK(c, cancelCall.Pos(), "`%s` dominates `%s`", src(fs, cancelCall), src(fs, waitCall))
-	}
-
-	// (e) producer goroutine: one go statement, Add(1) before it, leading defers close the channel and release the wait group
-	c = "wg-add@" + ctorName
-	var addCall *ast.CallExpr
-	inspectNoLit(m.ctor.Decl.Body, func(n ast.Node) bool {
-		if call, ok := n.(*ast.CallExpr); ok && isMethod(callee(info, call), "sync.WaitGroup", "Add") {
-			if sel, ok := ast.Unparen(call.Fun).(*ast.SelectorExpr); ok && c14OnBase(info, sel.X, m.fWG, m.ordVar) {
-				addCall = call
-			}
-		}
-		return true
-	})
-	inLoop := false
-	if len(m.goStmts) == 1 {
-		inLoop = enclosing(m.ctorPar, m.goStmts[0], func(n ast.Node) bool {
-			switch n.(type) {
-			case *ast.ForStmt, *ast.RangeStmt:
-				return true
-			}
-			return false
-		}) != nil
-	}
-	switch {
-	case len(m.goStmts) != 1 || m.lit == nil || inLoop:
-		r.Bad(c, m.ctor.Decl.Pos(), "expected exactly one `go func(){…}()` outside any loop in %s (found %d go statements): visited set and path are owned by a single producer", ctorName, len(m.goStmts))
-	case addCall == nil:
-		r.Bad(c, m.goStmts[0].Pos(), "no `%s.%s.Add(1)` before the go statement: the deferred Done makes the counter negative (panic) and Close does not wait for the producer", m.ordVar.Name(), m.fWG.Name())
-	case func() bool { v, ok := constInt(info, addCall.Args[0]); return !ok || v != 1 }():
-		r.Bad(c, addCall.Pos(), "`%s` does not add exactly 1 for the single producer goroutine: Wait never returns (or panics)", src(fs, addCall))
-	case !posDominates(m.ctorG, m.ctorDom, addCall.Pos(), m.goStmts[0].Pos()):
-		r.Bad(c, addCall.Pos(), "`%s` does not dominate the go statement: Close may run Wait before the counter was raised", src(fs, addCall))
-	default:
-		r.OK(c, addCall.Pos(), "`%s` dominates the only go statement of %s", src(fs, addCall), ctorName)
-	}
-
-	c = "goroutine-defers@" + ctorName
-	if m.lit != nil {
-		hasClose, hasDone := m.leadingDefers()
-		switch {
-		case !hasDone:
-			r.Bad(c, m.lit.Pos(), "the producer goroutine does not start with `defer %s.%s.Done()`: Close blocks forever in Wait", m.ordVar.Name(), m.fWG.Name())
-		case !hasClose:
-			r.Bad(c, m.lit.Pos(), "the producer goroutine does not start with `defer close(%s.%s)`: after the last id Next blocks in its select until somebody cancels — the iteration never ends on its own", m.ordVar.Name(), m.fOut.Name())
-		default:
-			r.OK(c, m.lit.Pos(), "the closure's leading statements defer %s.%s.Done() and close(%s.%s): both run on every exit of the goroutine", m.ordVar.Name(), m.fWG.Name(), m.ordVar.Name(), m.fOut.Name())
-		}
-	}
-
-	c = "close-sites"
-	badClose := false
-	for _, s := range m.closes {
-		_, deferred := parentsOf(r.P, s.fi)[s.node].(*ast.DeferStmt)
-		if s.fi.Obj != m.ctor.Obj || s.lit != m.lit || !deferred {
-			badClose = true
-			r.Bad(c, s.node.Pos(), "`%s` in %s closes the output channel outside the producer's deferred close: the producer's select may then send on a closed channel (panic) or the channel is closed twice", src(fs, s.node), s.fi.Name())
-		}
-	}
-	if !badClose {
-		r.OK(c, m.ctor.Decl.Pos(), "%d close site(s) of the output channel, all the producer's deferred close", len(m.closes))
-	}
-}
-
-// leadingDefers inspects the defer statements that open the producer closure.
-func (m *c14Model) leadingDefers() (hasClose, hasDone bool) {
-	for _, st := range m.lit.Body.List {
-		ds, ok := st.(*ast.DeferStmt)
-		if !ok {
-			break
-		}
-		call := ds.Call
-		if builtinName(m.info, call) == "close" && len(call.Args) == 1 && c14OnBase(m.info, call.Args[0], m.fOut, m.ordVar) {
-			hasClose = true
-		}
-		if sel, ok := ast.Unparen(call.Fun).(*ast.SelectorExpr); ok && isMethod(callee(m.info, call), "sync.WaitGroup", "Done") && c14OnBase(m.info, sel.X, m.fWG, m.ordVar) {
-			hasDone = true
-		}
-	}
-	return
-}
-
-func (m *c14Model) deferredCloseOK() bool {
-	if m.lit == nil {
-		return false
-	}
-	hc, _ := m.leadingDefers()
-	return hc
-}
-
-// ---------------------------------------------------------------------------
-// W5 all versions, relation members only
-
-// c14MemberRef reports whether e is the member's Ref (through a conversion and/or a
-// local variable assigned exactly once from it), for loop variable mv of type osm.Member.
-func (m *c14Model) memberRef(e ast.Expr, mv types.Object, depth int) bool {
-	e = ast.Unparen(e)
-	if depth > 4 {
-		return false
-	}
-	switch x := e.(type) {
-	case *ast.CallExpr:
-		if tv := m.info.Types[x.Fun]; tv.IsType() && len(x.Args) == 1 {
-			return m.memberRef(x.Args[0], mv, depth+1)
-		}
-	case *ast.SelectorExpr:
-		f := fieldOf(m.info, x)
-		return f != nil && f.Name() == "Ref" && namedPath(m.info.TypeOf(x.X)) == core.ModulePath+".Member" && objOf(m.info, x.X) == mv
-	case *ast.Ident:
-		o := objOf(m.info, x)
-		ws := c14Writes(m.info, m.walk.Decl.Body, o)
-		if len(ws) != 1 {
-			return false
-		}
-		if as, ok := ws[0].(*ast.AssignStmt); ok && len(as.Lhs) == 1 && len(as.Rhs) == 1 {
-			return m.memberRef(as.Rhs[0], mv, depth+1)
-		}
-	}
-	return false
-}
-
-func c14W5(r *core.R) {
-	m := c14Load(r)
-	if m == nil {
-		return
-	}
-	info, fn, fs := m.info, m.walk.Name(), r.P.Fset
-	iID := m.argIndex(m.idParam)
-	hc, rels, _ := m.historyCall()
-	if hc == nil || rels == nil {
-		r.Anchor("call of the datasource's RelationHistory in " + fn)
-		return
-	}
-	var relConst constant.Value
-	if osmPk := r.P.Pkg(""); osmPk != nil {
-		if cn, ok := osmPk.Types.Scope().Lookup("TypeRelation").(*types.Const); ok {
-			relConst = cn.Val()
-		}
-	}
-	if relConst == nil {
-		r.Anchor("osm.TypeRelation")
-		return
-	}
-	if len(m.rec) == 0 {
-		r.Bad("all-versions@"+fn, m.walk.Decl.Pos(), "%s never calls itself", fn)
-	}
-	for _, call := range m.rec {
-		cb, _ := blockOf(m.g, call.Pos())
-		// enclosing range loops, innermost first
-		var loops []*ast.RangeStmt
-		for p := m.par[ast.Node(call)]; p != nil; p = m.par[p] {
-			if rs, ok := p.(*ast.RangeStmt); ok && rs.Body.Pos() <= call.Pos() && call.End() <= rs.Body.End() {
-				loops = append(loops, rs)
-			}
-		}
-		if len(loops) != 2 || cb == nil {
-			r.Unknown("all-versions@"+fn, call.Pos(), "`%s` is enclosed by %d range loops; enumerated idiom: `for _, r := range history { for _, m := range r.Members { … } }`", src(fs, call), len(loops))
-			continue
-		}
-		inner, outer := loops[0], loops[1]
-		noBreak := func(rs *ast.RangeStmt) bool {
-			done := c14KindBlock(m.g, rs, cfg.KindRangeDone)
-			return done != nil && len(c14Preds(m.g, done)) == 1
-		}
-
-		c := "all-versions@" + fn
-		switch {
-		case objOf(info, outer.X) != rels:
-			r.Bad(c, outer.Pos(), "the outer loop ranges over `%s`, not over the complete history returned by `%s`: members referenced only by the versions left out are not emitted before this relation", src(fs, outer.X), src(fs, hc))
-		case len(c14Writes(info, m.walk.Decl.Body, rels)) != 1:
-			r.Bad(c, outer.Pos(), "the history variable `%s` is reassigned after the lookup", src(fs, outer.X))
-		case outer.Value == nil:
-			r.Bad(c, outer.Pos(), "the outer loop does not bind the version")
-		case !noBreak(outer):
-			r.Bad(c, outer.Pos(), "the loop over the versions can be left by `break`: later versions' members are not walked before the emission")
-		default:
-			r.OK(c, outer.Pos(), "`for … range %s` covers every version returned by `%s` (assigned once, loop left only by exhaustion or return)", src(fs, outer.X), src(fs, hc))
-		}
-
-		c = "all-members@" + fn
-		mf := fieldOf(info, inner.X)
-		switch {
-		case mf == nil || mf.Name() != "Members" || outer.Value == nil || objOf(info, ast.Unparen(inner.X).(*ast.SelectorExpr).X) != objOf(info, outer.Value):
-			r.Bad(c, inner.Pos(), "the inner loop ranges over `%s`, not over the complete Members of the version bound by the outer loop", src(fs, inner.X))
-		case inner.Value == nil:
-			r.Bad(c, inner.Pos(), "the inner loop does not bind the member")
-		case !noBreak(inner):
-			r.Bad(c, inner.Pos(), "the loop over the members can be left by `break`: the remaining members are not walked before the emission")
-		default:
-			r.OK(c, inner.Pos(), "`for … range %s` covers every member of each version (left only by exhaustion or return)", src(fs, inner.X))
-		}
-		if inner.Value == nil {
-			continue
-		}
-		mv := objOf(info, inner.Value)
-
-		c = "member-ref@" + fn
-		if iID < len(call.Args) && m.memberRef(call.Args[iID], mv, 0) {
-			r.OK(c, call.Pos(), "the id walked by `%s` is the Ref of the member bound by the inner loop (converted to osm.RelationID)", src(fs, call))
-		} else {
-			r.Bad(c, call.Pos(), "the id walked by `%s` is not derived from the current member's Ref: the children emitted first are not this relation's members", src(fs, call))
-		}
-
-		c = "relation-only@" + fn
-		head := c14KindBlock(m.g, inner, cfg.KindRangeLoop)
-		proved, why := false, fmt.Sprintf("no test of `%s.Type` against osm.TypeRelation guards `%s`: way and node members are walked as if their Ref were a relation id (a way member 8 makes relation 8 be emitted as a child)", mv.Name(), src(fs, call))
-		for _, cd := range m.conds {
-			be, ok := cd.expr.(*ast.BinaryExpr)
-			if !ok || (be.Op != token.EQL && be.Op != token.NEQ) || cd.ifs.Pos() < inner.Body.Pos() || cd.ifs.End() > inner.Body.End() {
-				continue
-			}
-			isType := func(e ast.Expr) bool {
-				f := fieldOf(info, e)
-				return f != nil && f.Name() == "Type" && objOf(info, ast.Unparen(e).(*ast.SelectorExpr).X) == mv
-			}
-			var other ast.Expr
-			switch {
-			case isType(be.X):
-				other = be.Y
-			case isType(be.Y):
-				other = be.X
-			default:
-				continue
-			}
-			tv := info.Types[other]
-			if tv.Value == nil || !constant.Compare(tv.Value, token.EQL, relConst) {
-				why = fmt.Sprintf("`%s` compares the member type with `%s`, not with osm.TypeRelation: non-relation members are followed (their Ref is taken for a relation id) and relation members are skipped", src(fs, cd.ifs.Cond), src(fs, other))
-				continue
-			}
-			skip := cd.t // edge taken for non-relation members
-			if be.Op == token.EQL {
-				skip = cd.f
-			}
-			switch {
-			case cd.blk != cb && !m.dom[cb][cd.blk]:
-				why = fmt.Sprintf("`%s` does not dominate `%s`", src(fs, cd.ifs.Cond), src(fs, call))
-			case reachableFrom([]*cfg.Block{skip}, func(b *cfg.Block) bool { return b == head })[cb]:
-				why = fmt.Sprintf("`%s` is reachable from the non-relation edge of `%s` within the same iteration", src(fs, call), src(fs, cd.ifs.Cond))
-			default:
-				proved = true
-				r.OK(c, cd.expr.Pos(), "`%s` dominates `%s`; its non-relation edge returns to the member loop without reaching the call", src(fs, cd.ifs.Cond), src(fs, call))
-			}
-			if proved {
-				break
-			}
-		}
-		if !proved {
-			r.Bad(c, call.Pos(), "%s", why)
-		}
-	}
-}
-
-// ---------------------------------------------------------------------------
-// W6 the only ways to leave walk before the emission
-
-func c14W6(r *core.R) {
-	m := c14Load(r)
-	if m == nil {
-		return
-	}
-	info, fn, fs := m.info, m.walk.Name(), r.P.Fset
-	own, _ := m.par[ast.Node(m.send)].(*ast.CommClause)
-	sel := m.selectOf(m.par, m.send, m.recv)
-	var afterSend map[*cfg.Block]bool
-	if own != nil {
-		if b := c14KindBlock(m.g, own, cfg.KindSelectCaseBody); b != nil {
-			afterSend = reachableFrom([]*cfg.Block{b}, nil)
-		}
-	}
-	if afterSend == nil { // bare send: everything after the send statement
-		afterSend = reachableFrom(m.sendBlk.Succs, nil)
-	}
-	var vt *c14VisitedTest
-	for _, t := range m.visitedTests() {
-		if objOf(info, t.key) == types.Object(m.idParam) {
-			t := t
-			vt = &t
-		}
-	}
-	_, _, herr := m.historyCall()
-	var nf *c14Cond
-	if herr != nil {
-		nf = m.notFoundCond(herr)
-	}
-	var scans []*c14Scan
-	iID := m.argIndex(m.idParam)
-	for _, call := range m.rec {
-		if iID < len(call.Args) {
-			if sc, _ := m.scanFor(call.Args[iID]); sc != nil {
-				scans = append(scans, sc)
-			}
-		}
-	}
-	allNil := func(ret *ast.ReturnStmt) bool {
-		for _, e := range ret.Results {
-			if !c14IsNil(info, e) {
-				return false
-			}
-		}
-		return len(ret.Results) > 0
-	}
-	n := 0
-	inspectNoLit(m.walk.Decl.Body, func(x ast.Node) bool {
-		ret, ok := x.(*ast.ReturnStmt)
-		if !ok {
-			return true
-		}
-		n++
-		c := "exit@" + fn
-		blk, _ := blockOf(m.g, ret.Pos())
-		if blk == nil || !blk.Live {
-			r.OKTrivial(c, ret.Pos(), "`%s` is unreachable", src(fs, ret))
-			return true
-		}
-		// Done case of the emission select
-		if sel != nil && sel.done != nil && sel.done.Pos() <= ret.Pos() && ret.End() <= sel.done.End() {
-			r.OK(c, ret.Pos(), "`%s`: cancellation observed while offering the id (Done case of the emission select)", src(fs, ret))
-			return true
-		}
-		if blk != m.sendBlk && afterSend[blk] && !reachableFrom([]*cfg.Block{m.g.Blocks[0]}, func(b *cfg.Block) bool { return b == m.sendBlk })[blk] {
-			r.OK(c, ret.Pos(), "`%s` is only reached after the id was sent", src(fs, ret))
-			return true
-		}
-		if vt != nil && c14Guarded(vt.c.blk, vt.present, vt.absent, blk) {
-			if allNil(ret) {
-				r.OK(c, ret.Pos(), "`%s`: id already in the visited set (emitted earlier), nil result", src(fs, ret))
-			} else {
-				r.Bad(c, ret.Pos(), "`%s` reports an error for an id that was already emitted: a relation requested twice, or shared by two parents, aborts the iteration and the remaining requested relations are never emitted", src(fs, ret))
-			}
-			return true
-		}
-		if nf != nil && c14Guarded(nf.blk, nf.t, nf.f, blk) {
-			r.OK(c, ret.Pos(), "`%s`: history not found (no emission for an id without history; the result is checked by W3 notfound)", src(fs, ret))
-			return true
-		}
-		for _, sc := range scans {
-			if c14Guarded(sc.c.blk, sc.match, sc.nomatch, blk) {
-				if allNil(ret) {
-					r.OK(c, ret.Pos(), "`%s`: cycle cut — a member is an ancestor on the path, which is empty for requested ids (W3 root-path), so only non-root activations leave here; nil result", src(fs, ret))
-				} else {
-					r.Bad(c, ret.Pos(), "`%s` reports an error for a reference cycle: cycles are legal in OSM and the iteration must still emit every requested relation", src(fs, ret))
-				}
-				return true
-			}
-		}
-		// error guards: `E != nil` → return … E, and `ctx.Err() != nil` → return non-nil
-		for _, cd := range m.conds {
-			be, ok := cd.expr.(*ast.BinaryExpr)
-			if !ok || (be.Op != token.NEQ && be.Op != token.EQL) || !c14IsNil(info, be.Y) {
-				continue
-			}
-			via, other := cd.t, cd.f
-			if be.Op == token.EQL {
-				via, other = cd.f, cd.t
-			}
-			if !c14Guarded(cd.blk, via, other, blk) || len(ret.Results) == 0 {
-				continue
-			}
-			last := ret.Results[len(ret.Results)-1]
-			if eo := objOf(info, be.X); eo != nil && types.Identical(eo.Type(), types.Universe.Lookup("error").Type()) && usesObj(info, last, eo) {
-				r.OK(c, ret.Pos(), "`%s` under `%s`: a non-nil error is handed to the caller", src(fs, ret), src(fs, cd.ifs.Cond))
-				return true
-			}
-			if call, ok := ast.Unparen(be.X).(*ast.CallExpr); ok && isMethod(callee(info, call), "context.Context", "Err") && !c14IsNil(info, last) {
-				if s, ok := ast.Unparen(call.Fun).(*ast.SelectorExpr); ok && c14OnBase(info, s.X, m.fCtx, m.recv) {
-					r.OK(c, ret.Pos(), "`%s` under `%s`: the ordering's context is cancelled", src(fs, ret), src(fs, cd.ifs.Cond))
-					return true
-				}
-			}
-		}
-		r.Unknown(c, ret.Pos(), "`%s` leaves %s before the emission for a reason that is not one of: already visited, history not found, datasource/child error, cycle cut, cancellation. Such an exit keeps a relation with a history from being emitted, or lets a parent be emitted while this child was skipped", src(fs, ret), fn)
-		return true
-	})
-	r.Stat("walk_exits", n)
-}
-
-// ---------------------------------------------------------------------------
-// registration, sensitivity suite
-
-// exact source fragments of annotate/order.go used by the mutants
-const (
-	c14SrcLoop = `	for _, r := range relations {
-		for _, m := range r.Members {
-			if m.Type != osm.TypeRelation {
-				continue
-			}
-
-			mid := osm.RelationID(m.Ref)
-			for _, pid := range path {
-				if pid == mid {
-					// circular relations are allowed,
-					// source: https://github.com/openstreetmap/openstreetmap-website/issues/1465#issuecomment-282323187
-
-					// since this relation is already being worked through higher
-					// up the stack, we can just return here.
-					return nil
-				}
-			}
-
-			err := o.walk(mid, append(path, mid))
-			if err != nil {
-				return err
-			}
-		}
-	}
-`
-	c14SrcCtxCheck = `	if o.ctx.Err() != nil {
-		return o.ctx.Err()
-	}
-`
-	c14SrcEmit = `	o.visited[id] = struct{}{}
-	select {
-	case o.out <- id:
-	case <-o.ctx.Done():
-		return o.ctx.Err()
-	}
-`
-	c14SrcScan = `			for _, pid := range path {
-				if pid == mid {
-					// circular relations are allowed,
-					// source: https://github.com/openstreetmap/openstreetmap-website/issues/1465#issuecomment-282323187
-
-					// since this relation is already being worked through higher
-					// up the stack, we can just return here.
-					return nil
-				}
-			}
-`
-	c14SrcMembersToCut = `		for _, m := range r.Members {
-			if m.Type != osm.TypeRelation {
-				continue
-			}
-
-			mid := osm.RelationID(m.Ref)
-			for _, pid := range path {
-				if pid == mid {
-					// circular relations are allowed,
-					// source: https://github.com/openstreetmap/openstreetmap-website/issues/1465#issuecomment-282323187
-
-					// since this relation is already being worked through higher
-					// up the stack, we can just return here.
-					return nil
-`
-	c14SrcNextSelect = `	select {
-	case id := <-o.out:
-		if id == 0 {
-			return false
-		}
-		o.id = id
-		return true
-	case <-o.ctx.Done():
-		return false
-	}
-`
-)
-
-func init() {
-	const f = "annotate/order.go"
-	w := "(*ChildFirstOrdering).walk"
-	register(&core.Property{
-		ID:    "C14",
-		Title: "Child-first relation ordering emits children before parents, once, always ends",
-		Explanation: "Structural necessary conditions on annotate/order.go, decided on every control-flow path of the DFS, the producer goroutine, Next and Close: " +
-			"(W1) the id is sent at exactly one site, no recursive call is reachable after the send and the send is dominated by the exit of the loop over all versions' members (post-order); " +
-			"(W2) the send is dominated by the visited test on the id (already-visited edge never reaches the send) and by — or always followed by — the store of the id into the visited set, the set only grows, the DFS runs on the single producer goroutine, and the producer loop walks every element of the request list in order and stops on the first error; " +
-			"(W3) each recursive call extends the path with the id it enters and is dominated by a complete scan of the path whose match leaves the function without recursing or sending (path elements stay distinct, so depth <= number of distinct ids + 1; and an inner activation of an id that is being walked higher up can never reach the send, so cycles do not emit twice); the root call's path is empty (a requested id is never cut as its own ancestor); not-found histories return nil before any emission, other errors and child errors are returned; " +
-			"(W4) the ordering owns a context derived with WithCancel from the caller's, the send is a select case next to that context's Done (returning an error), Next's receive recognises the closed channel and Done and returns false on both, Close cancels before Wait, Add(1) dominates the single go statement whose closure starts with defer close(out) and defer wg.Done(), and the channel is closed nowhere else; " +
-			"(W5) the recursion sits in `range history { range r.Members {…} }` over the complete lookup result without break, walks the member's Ref, and is guarded by the member-type test against osm.TypeRelation; " +
-			"(W6) every return of the DFS before the send is one of: already visited, not found, error, cycle cut, cancellation. " +
-			"Together these give, for every graph: termination, at most one emission per id, no emission without a found history, every requested id with a history reaches the send unless the iteration was stopped, and children-first order on acyclic graphs. " +
-			"NOT decided: behaviour of the user's datasource (determinism of RelationHistory, honouring the context while blocked, the NotFound classification), id 0 (used by Next as the closed-channel sentinel), running time on cyclic graphs (cut activations are not memoised), data races on err/CompletedIndex, wall-clock promptness.",
-		Assumptions: []string{"go/types, go/cfg (x/tools v0.29.0)", "RelationHistory returns the same history for the same id during one iteration", "the datasource returns when its context is cancelled", "0 is not a valid relation id", "Go channel/select/WaitGroup/context semantics"},
-		LevelText:   "Structural necessary conditions of the child-first ordering decided on every path of the DFS and of the producer/consumer protocol: post-order emission, visited test/store around the single send, path-based cycle cut that leaves the activation, empty root path, exits before the send enumerated, select-with-Done on send and receive, cancel-before-Wait, deferred close/Done. The graph-theoretic conclusions (termination, once, children first, every requested id) follow from these by the argument in the explanation; they are not computed on graphs.",
-		LevelNote:   "Trusts the type checker and go/cfg; assumes a deterministic datasource that honours cancellation and that relation id 0 does not occur.",
-		Technique:   "per-function CFG dominance/reachability rules (go/cfg) over type-resolved channel, map, context and WaitGroup operations; role-based anchoring of fields by type",
-		DesignRef:   "DESIGN.md §5 C14",
-		Rules: []*core.Rule{
-			{ID: "W1", Floor: 3, Doc: "emit after children: single send of the walked id, no recursion after it, member loops exhausted before it", Run: c14W1},
-			{ID: "W2", Floor: 6, Doc: "emit once: visited test and store around the send, monotone set, single goroutine, producer loop over all requested ids", Run: c14W2},
-			{ID: "W3", Floor: 7, Doc: "cycle cut and termination: append(path, child), dominating path scan whose match leaves the walk, empty root path, not-found/err handling", Run: c14W3},
-			{ID: "W4", Floor: 7, Doc: "no deadlock on stop: own cancellable context, select with Done on send and receive, cancel before Wait, deferred close/Done, Add(1) before go", Run: c14W4},
-			{ID: "W5", Floor: 4, Doc: "all versions' members are walked, only relation members are followed", Run: c14W5},
-			{ID: "W6", Floor: 8, Doc: "exits of the walk before the emission are exactly visited / not found / error / cycle cut / cancellation", Run: c14W6},
-		},
-		Mutants: []core.Mutant{
-			{Name: "send-before-members", File: f, Find: c14SrcLoop + "\n" + c14SrcCtxCheck + "\n" + c14SrcEmit, Replace: c14SrcEmit + "\n" + c14SrcLoop + "\n" + c14SrcCtxCheck, ExpectRule: "W1", ExpectConstruct: "post-order@" + w},
-			{Name: "members-only-near-root", File: f, Find: c14SrcLoop, Replace: "\tif len(path) < 2 {\n" + c14SrcLoop + "\t}\n", ExpectRule: "W1", ExpectConstruct: "members-complete@" + w},
-			{Name: "send-other-id", File: f, Find: "case o.out <- id:", Replace: "case o.out <- o.id + id:", ExpectRule: "W1", ExpectConstruct: "send-site@" + w},
-			{Name: "visited-store-on-entry", File: f, Find: "\tfor _, r := range relations {\n\t\tfor _, m := range r.Members {", Replace: "\to.visited[id] = struct{}{}\n\tfor _, r := range relations {\n\t\tfor _, m := range r.Members {", ExpectRule: "W2", ExpectConstruct: "visited-only-when-emitting"},
-			{Name: "drop-visited-store", File: f, Find: "\to.visited[id] = struct{}{}\n", Replace: "", ExpectRule: "W2", ExpectConstruct: "visited-store@" + w},
-			{Name: "visited-store-wrong-key", File: f, Find: "o.visited[id] = struct{}{}", Replace: "o.visited[o.id] = struct{}{}", ExpectRule: "W2", ExpectConstruct: "visited-store@" + w},
-			{Name: "drop-visited-test", File: f, Find: "\tif _, ok := o.visited[id]; ok {\n\t\treturn nil\n\t}\n", Replace: "", ExpectRule: "W2", ExpectConstruct: "visited-test@" + w},
-			{Name: "visited-test-inverted", File: f, Find: "if _, ok := o.visited[id]; ok {", Replace: "if _, ok := o.visited[id]; !ok && len(path) > 50 {", ExpectRule: "W2", ExpectConstruct: "visited-test@" + w},
-			{Name: "visited-forgotten", File: f, Find: "\t\to.CompletedIndex = i\n", Replace: "\t\to.CompletedIndex = i\n\t\tdelete(o.visited, id)\n", ExpectRule: "W2", ExpectConstruct: "visited-monotone"},
-			{Name: "producer-skips-first", File: f, Find: "for i, id := range ids {", Replace: "for i, id := range ids[1:] {", ExpectRule: "W2", ExpectConstruct: "producer-loop@"},
-			{Name: "producer-ignores-error", File: f, Find: "\t\t\t\to.err = err\n\t\t\t\treturn\n", Replace: "\t\t\t\to.err = err\n", ExpectRule: "W2", ExpectConstruct: "producer-loop@"},
-			{Name: "path-without-append", File: f, Find: "o.walk(mid, append(path, mid))", Replace: "o.walk(mid, path)", ExpectRule: "W3", ExpectConstruct: "path-arg@" + w},
-			{Name: "drop-path-scan", File: f, Find: c14SrcScan, Replace: "", ExpectRule: "W3", ExpectConstruct: "cycle-scan@" + w},
-			{Name: "cut-breaks-scan-only", File: f, Find: "\t\t\t\t\t// up the stack, we can just return here.\n\t\t\t\t\treturn nil\n", Replace: "\t\t\t\t\t// up the stack, we can just return here.\n\t\t\t\t\tbreak\n", ExpectRule: "W3", ExpectConstruct: "cycle-scan@" + w},
-			{Name: "cut-continues-with-next-member", File: f, Find: c14SrcMembersToCut, Replace: "\tmembers:\n" + c14SrcMembersToCut[:len(c14SrcMembersToCut)-len("return nil\n")] + "continue members\n", ExpectRule: "W3", ExpectConstruct: "cycle-scan@" + w},
-			{Name: "root-on-own-path", File: f, Find: "err := o.walk(id, path)", Replace: "err := o.walk(id, append(path, id))", ExpectRule: "W3", ExpectConstruct: "root-path@"},
-			{Name: "child-error-swallowed", File: f, Find: "\t\t\terr := o.walk(mid, append(path, mid))\n\t\t\tif err != nil {\n\t\t\t\treturn err\n\t\t\t}\n", Replace: "\t\t\to.walk(mid, append(path, mid))\n", ExpectRule: "W3", ExpectConstruct: "rec-error@" + w},
-			{Name: "notfound-is-fatal", File: f, Find: "\tif o.ds.NotFound(err) {\n\t\treturn nil\n\t}\n\n", Replace: "", ExpectRule: "W3", ExpectConstruct: "notfound@" + w},
-			{Name: "notfound-is-emitted", File: f, Find: "\tif o.ds.NotFound(err) {\n\t\treturn nil\n\t}\n", Replace: "\tif o.ds.NotFound(err) {\n\t\terr = nil\n\t}\n", ExpectRule: "W3", ExpectConstruct: "notfound@" + w},
-			{Name: "bare-send", File: f, Find: "\tselect {\n\tcase o.out <- id:\n\tcase <-o.ctx.Done():\n\t\treturn o.ctx.Err()\n\t}\n", Replace: "\to.out <- id\n", ExpectRule: "W4", ExpectConstruct: "send-select@" + w},
-			{Name: "send-select-foreign-done", File: f, Find: "\tcase o.out <- id:\n\tcase <-o.ctx.Done():", Replace: "\tcase o.out <- id:\n\tcase <-context.Background().Done():", ExpectRule: "W4", ExpectConstruct: "send-select@" + w},
-			{Name: "close-without-cancel", File: f, Find: "\to.done()\n\to.wg.Wait()\n", Replace: "\to.wg.Wait()\n", ExpectRule: "W4", ExpectConstruct: "close-order@"},
-			{Name: "close-waits-before-cancel", File: f, Find: "\to.done()\n\to.wg.Wait()\n", Replace: "\to.wg.Wait()\n\to.done()\n", ExpectRule: "W4", ExpectConstruct: "close-order@"},
-			{Name: "drop-defer-close", File: f, Find: "\t\tdefer close(o.out)\n", Replace: "", ExpectRule: "W4", ExpectConstruct: "goroutine-defers@"},
-			{Name: "drop-defer-wg-done", File: f, Find: "\t\tdefer o.wg.Done()\n", Replace: "", ExpectRule: "W4", ExpectConstruct: "goroutine-defers@"},
-			{Name: "drop-wg-add", File: f, Find: "\to.wg.Add(1)\n", Replace: "", ExpectRule: "W4", ExpectConstruct: "wg-add@"},
-			{Name: "ctx-not-the-derived-one", File: f, Find: "ctx, done := context.WithCancel(ctx)", Replace: "_, done := context.WithCancel(ctx)", ExpectRule: "W4", ExpectConstruct: "ctx@"},
-			{Name: "ctx-detached-from-caller", File: f, Find: "context.WithCancel(ctx)", Replace: "context.WithCancel(context.Background())", ExpectRule: "W4", ExpectConstruct: "ctx@"},
-			{Name: "next-ignores-closed-channel", File: f, Find: "\t\tif id == 0 {\n\t\t\treturn false\n\t\t}\n", Replace: "", ExpectRule: "W4", ExpectConstruct: "recv-select@"},
-			{Name: "next-done-returns-true", File: f, Find: "\tcase <-o.ctx.Done():\n\t\treturn false\n", Replace: "\tcase <-o.ctx.Done():\n\t\treturn true\n", ExpectRule: "W4", ExpectConstruct: "recv-select@"},
-			{Name: "follow-way-members", File: f, Find: "if m.Type != osm.TypeRelation {", Replace: "if m.Type != osm.TypeWay {", ExpectRule: "W5", ExpectConstruct: "relation-only@" + w},
-			{Name: "drop-member-type-test", File: f, Find: "\t\t\tif m.Type != osm.TypeRelation {\n\t\t\t\tcontinue\n\t\t\t}\n", Replace: "", ExpectRule: "W5", ExpectConstruct: "relation-only@" + w},
-			{Name: "latest-version-only", File: f, Find: "for _, r := range relations {", Replace: "for _, r := range relations[len(relations)-1:] {", ExpectRule: "W5", ExpectConstruct: "all-versions@" + w},
-			{Name: "first-member-only", File: f, Find: "\t\t\tif err != nil {\n\t\t\t\treturn err\n\t\t\t}\n\t\t}\n", Replace: "\t\t\tif err != nil {\n\t\t\t\treturn err\n\t\t\t}\n\t\t\tbreak\n\t\t}\n", ExpectRule: "W5", ExpectConstruct: "all-members@" + w},
-			{Name: "depth-limited-walk", File: f, Find: "\tfor _, r := range relations {\n", Replace: "\tif len(path) > 2 {\n\t\treturn nil\n\t}\n\n\tfor _, r := range relations {\n", ExpectRule: "W6", ExpectConstruct: "exit@" + w},
-			{Name: "visited-is-an-error", File: f, Find: "\tif _, ok := o.visited[id]; ok {\n\t\treturn nil\n", Replace: "\tif _, ok := o.visited[id]; ok {\n\t\treturn context.Canceled\n", ExpectRule: "W6", ExpectConstruct: "exit@" + w},
-		},
-	})
 }
